@@ -12,1520 +12,1553 @@ Definition show_fres (r : fres) : string :=
   end.
 Definition check (rs : list rune) : string := digest (show_fres (format_res rs)).
 Definition full (rs : list rune) : string := show_fres (format_res rs).
-Eval vm_compute in ("<<<M855>>>" ++ check (runes_of_ascii "root packet crc	{ @calculatedFrom(""1""	) f32 x
-, @calculatedFrom( ""// no comment""
-)//x
-string	chars ,	@calculatedFrom(  ""a\""b""
-) @rightPad ( )
-    @tag(
-    7 )match A as matchKey {[ 42 ]:msg_type""x y"" : lengthOf
-    ""a\\""
-: packetx /// triple
-,[""`tick`"",""x y""
-, ""a\""b"" ,// packet A { u8 x, }
-""x y""
-, 00 ,
-""it's""
-    , 7
-, """"
-    ]: Logon }// a // b
-,	@lengthOf(  falsey )repeat falsey `u8 x,` , u8x
-{ int16
-lengthOf
-    `u8 x,` , f32a// " ++ [128512]%N ++ runes_of_ascii " emoji
-packetx,
-} , lengthOf @lengthOf(
-calculatedFrom ) , @rightPad
-('0')	f32	f32a ,
-//
-// packet A { u8 x, }
-@calculatedFrom( """ ++ [128512]%N ++ runes_of_ascii """)tag ,
-// " ++ [27880; 37322]%N ++ runes_of_ascii "
-//x
-string zchar `// not a comment` ,} MetaData matchKey {
-    }	packet uint8x {
-// a // b
-//x
-repeat lengthOf
-// a // b
-// @lengthOf(
-{u16 u128 //
-,Pad  , } , @tag( 4294967296	)
-@calculatedFrom(	""x y"" ) @tag(	0) char[4294967296 ] options1 @calculatedFrom( ""CRC32"" )	,@rightPad ('\x00') repeat
-    string
-asx `a\` // " ++ [128512]%N ++ runes_of_ascii " emoji
-, @calculatedFrom(
-""" ++ [128512]%N ++ runes_of_ascii """ )	char[255
-] len
-@calculatedFrom(
-""" ++ [233]%N ++ runes_of_ascii "t" ++ [233]%N ++ runes_of_ascii """ ) ,
-@calculatedFrom( //x
-""{,}"" )
-repeat zchar
-    calculatedFrom, @calculatedFrom( """ ++ [233]%N ++ runes_of_ascii "t" ++ [233]%N ++ runes_of_ascii """
-    )string  o @lengthOf( u) ,uint64 falsey
-    // " ++ [128512]%N ++ runes_of_ascii " emoji
-    @calculatedFrom( ""\" ++ [233]%N ++ runes_of_ascii """ ) , zchar[ 65535 ] stringy @calculatedFrom( ""1""
-), As , }packet BodyLength{  repeat uint32 body , zchar[ 65535 ]
-    //	t
-    Header ,As i8i8 `tab	here`,@calculatedFrom( """ ++ [128512]%N ++ runes_of_ascii """
-    ) @rightPad( // trailing space 
-'0'
-) @tag(65535 )
-    Pad { string
-u128
-, },@tag(  255 )
-    @leftPad() @lengthOf(f32a) repeat o	,repeat i8i8{repeat f32a /// triple
-float`line1
-line2`, repeat char[ 0123456789 ]pack	`tab	here` , // `tick` ""quote"" 'q'
-char[] x ,} ,
-    @calculatedFrom(	"""" )
-@lengthOf(lengthOf
-    ) repeat char[ 65535 ] Foo , pack lengthOf , repeat Pad , }
-packet // " ++ [128512]%N ++ runes_of_ascii " emoji
-u8x {
-    //
-    @tag( // `tick` ""quote"" 'q'
-255 ) repeat
-zchar[ // trailing space 
-4294967296
-]
-pack ,// " ++ [128512]%N ++ runes_of_ascii " emoji
-char[ 0123456789 ] charz// trailing space 
-@calculatedFrom( //x
-""a\""b"" )// packet A { u8 x, }
-,
-    //
-    @lengthOf( Header
-)
-// c
-//x
-f32a
-    {  u128 @calculatedFrom(
-    """"
-    // " ++ [128512]%N ++ runes_of_ascii " emoji
-    )
-    `line1
-line2` , T @calculatedFrom( ""a\""b""
-)
-, int32	lengthOf @lengthOf(
-    msg_type  ) ,
-Foo@calculatedFrom(
-    ""a\""b""
-) ,
-} , }")).
-Eval vm_compute in ("<<<M1161>>>" ++ check (runes_of_ascii "
-root  packet MetaDataX	{int32
-Logon,
-}packet
-    roots { match
-calculatedFrom as i8i8 { [	""// no comment""	,""\" ++ [233]%N ++ runes_of_ascii """, // c
-10 , ""\n"" , ""{,}"" , //	t
-65535
-, ""x y"" ] : // " ++ [128512]%N ++ runes_of_ascii " emoji
-As , 10 :
-    o ,
-""\" ++ [233]%N ++ runes_of_ascii """
-: MetaDataX
-} , @leftPad ( '\x00' )
-@lengthOf(
-a1 )
-    // `tick` ""quote"" 'q'
-    @calculatedFrom(""a\\"" ) uint16 float @calculatedFrom( ""`tick`"") //	t
-,string BodyLength
-    @calculatedFrom(""x y""
-) ,calculatedFrom stringy // packet A { u8 x, }
-,
-@lengthOf( a1 )
-    @tag(	65535)char[]
-falsey `// not a comment`
-, @calculatedFrom( """ ++ [233]%N ++ runes_of_ascii "t" ++ [233]%N ++ runes_of_ascii """
-    )char[ 255 ]/// triple
-msg_type ,
-o , @rightPad ( '0' ) // trailing space 
-repeat rootA { x {  repeat u8 Z9_
-    `
-` ,	char[255 ] // " ++ [128512]%N ++ runes_of_ascii " emoji
-leftPad , int32 len`line1
-line2`
-    , } ,// `tick` ""quote"" 'q'
-repeat uint8x
-{ char[] rootA @lengthOf(Z9_ ), match  zchar as x_y_z {	0
-: Z9_	, [
-007
-, 007
-    , 1 ,007,""""
-    , ""1"" ]
-    :
-packetx
-    ,	[""1"" , """"
-]
-: len , """" :BodyLength ,
-    [ ""// no comment""
-    ,
-    //	t
-    """ ++ [128512]%N ++ runes_of_ascii """ ,	""`tick`"" ] :
-chars ,
-10: T } , },
-    // " ++ [27880; 37322]%N ++ runes_of_ascii "
-    a1 @lengthOf( body
-) ,  }
-    //x
-    , }MetaData// c
-crc {  }
-    options{ rootA =
-'\x00' }
-packet lengthOf
-{ char[] float// " ++ [128512]%N ++ runes_of_ascii " emoji
-`" ++ [28040; 24687; 31867; 22411]%N ++ runes_of_ascii "` ,
-char[] falsey , repeatCount	`crlf
-line` ,// packet A { u8 x, }
-uint32 Foo
-@lengthOf( string_ ) `doc`, @calculatedFrom(// @lengthOf(
-""\n"" )
-    f64 Pad @lengthOf(
-    i8i8) ,
-@lengthOf(
-i8i8) x_y_z // `tick` ""quote"" 'q'
-x
-    ,@calculatedFrom(
-    ""1""
-// packet A { u8 x, }
-// packet A { u8 x, }
-) pack
-{ float64 leftPad `crlf
-line`
-, repeat int {	match packetx
-as repeatCount {// " ++ [27880; 37322]%N ++ runes_of_ascii "
-[""a\""b"" ,
-    // c
-    42 ]  : repeatCount // a // b
-,
-    3 : // " ++ [128512]%N ++ runes_of_ascii " emoji
-leftPad ,
-    ""it's""
-:i8i8
-, ""packet"": x_y_z ""`tick`""
-:
-asx , 3
-    : Foo, } , i32 //	t
-options1 `" ++ [233]%N ++ runes_of_ascii "`
-    ,repeat int i64_
-    ,
-    }
-    ,
-} , }
-")).
-Eval vm_compute in ("<<<M4281>>>" ++ check (runes_of_ascii "packet Packet {
-    @leftPad(' ')
-    repeat As {
-        repeatCount @calculatedFrom(""" ++ [28040; 24687]%N ++ runes_of_ascii """),
-        repeat pack {
-            /// triple
-            x {
-                match As as uint8x {
-                    [
-                        00, ""1"", ""\" ++ [233]%N ++ runes_of_ascii """, ""it's"", ""a\""b"",
-                        ""\" ++ [233]%N ++ runes_of_ascii """
-                    ] : pack,
-                    [
-                        65535, ""a\""b"", """ ++ [233]%N ++ runes_of_ascii "t" ++ [233]%N ++ runes_of_ascii """, ""a	b"", ""`tick`"",
-                        ""\n""
-                    ] : As,
-                    0123456789 : float,
-                    /// triple
-                    ""a	b"" : x_y_z,
-                    [""abc""] : stringy,
-                    // trailing space 
-                },
-                f64 MetaDataX,
-                zchar[0123456789] charz,
-            },
-            crc {
-                char[] x_y_z `
-                `,
-                match Z9_ as i8i8 {
-                    00 : charz,
-                },
-            },
-            i8 _x,
-            repeat falsey {
-                // `tick` ""quote"" 'q'
-                char[65535] Packet @calculatedFrom(""x y"") `line1
-                line2`,
-            },
-        },
-        f32a MetaDataX `" ++ [233]%N ++ runes_of_ascii "`,
-        repeat matchKey {
-            int32 int `crlf
-            line`,
-        },
-    },
-    float {
-        string As `// not a comment`,
-        As,
-        stringy,
-    },
-    @tag(00)
-    Foo,
-    repeat int16 Z9_,
-    @lengthOf(u8x)
-    u8x {
-        repeat uint64 asx,
-        // packet A { u8 x, }
-        //
-        repeat int ``,
-        char[1] uint8x @calculatedFrom(""\" ++ [233]%N ++ runes_of_ascii """),
-    },
-    x,
-}")).
-Eval vm_compute in ("<<<M345>>>" ++ check (runes_of_ascii "// `tick` ""quote"" 'q'
-root	packet /// triple
-As { }packet x_y_z{@rightPad (
-) @tag( 42 )
-    @rightPad (' ' ) repeat f32a charz ,match Header as// a // b
-stringy { [ 1	,	4294967296 ]// packet A { u8 x, }
-: rootA ,
-0123456789 : x_y_z
-    , [
-    65535
-, 255]	:
-/// triple
-// a // b
-metadata ,
-[	7 , """ ++ [233]%N ++ runes_of_ascii "t" ++ [233]%N ++ runes_of_ascii """, ""{,}"" ,""{,}"" ] : T
-// trailing space 
-// " ++ [27880; 37322]%N ++ runes_of_ascii "
-,""packet"" :
-    chars , // trailing space 
-[ 42
-    , //
-00] : Logon,} ,repeat i8i8 {
-tag @calculatedFrom(// " ++ [27880; 37322]%N ++ runes_of_ascii "
-""" ++ [128512]%N ++ runes_of_ascii """ )`{ , }` , }
-,Z9_ @lengthOf(
-    Packet
-    // @lengthOf(
-    ) ,
-    // trailing space 
-    lengthOf
-    ,
-trueish {
-zchar[ 007/// triple
-]
-    packetx, zchar[ 0123456789
-] MetaDataX `// not a comment`
-, rootA @lengthOf(Z9_)
-    `" ++ [233]%N ++ runes_of_ascii "`, }
-,	} root// a // b
-packet u8x { float64 len@calculatedFrom( ""packet"" )
-//
-// " ++ [27880; 37322]%N ++ runes_of_ascii "
-, u8 calculatedFrom , @calculatedFrom( ""a\""b""
-) @calculatedFrom( ""\n"") // trailing space 
-@lengthOf(
-    Foo ) Logon @lengthOf(	i8i8) , // trailing space 
-@calculatedFrom(
-""a\\"") falsey@calculatedFrom(
-""" ++ [233]%N ++ runes_of_ascii "t" ++ [233]%N ++ runes_of_ascii """)`line1
-line2` ,@leftPad('\x00' )
-    // c
-    match
-i64_	as
-    // c
-    i64_{ [
-    0123456789 ] :  a1
-,[ ""1"" ,
-3 , //
-3 , 7 , 0
-] :string_ ,
-    """"// `tick` ""quote"" 'q'
-:
-    i64_ , }, @lengthOf( As )
-    // packet A { u8 x, }
-    T{zchar[ 0] roots
-@lengthOf(
-options1 )
-    , /// triple
-u16 pack
-    ,//
-} ,/// triple
-string// `tick` ""quote"" 'q'
-x	`crlf
-line`
-, }")).
-Eval vm_compute in ("<<<M1376>>>" ++ check (runes_of_ascii "packet i64_{
-char
-i64_ @calculatedFrom(
-""\n"")
-    ,// c
-@tag( 1 )MetaDataX {
-    uint32 options1 @calculatedFrom( ""a	b""),repeat
-    zchar `" ++ [28040; 24687; 31867; 22411]%N ++ runes_of_ascii "` ,
-    body @calculatedFrom(""x y"" )	`doc`	,
-    zchar[ 10
-// a // b
-// trailing space 
-]
-string_ @calculatedFrom( // trailing space 
-""1""
-    ) `doc`,	} , T
-    ,
-    @calculatedFrom( ""CRC32"" ) matchKey {	_x@lengthOf(u8x )`" ++ [28040; 24687; 31867; 22411]%N ++ runes_of_ascii "` , }
-, } options{float
-=
-char[00 ] ;
-    string_ = // @lengthOf(
-i16
-; //x
-} root  packet rootA {  metadata {
-    float32 pack
-    , repeat	i64 string_	, i16 body `u8 x,`, } ,@calculatedFrom(""CRC32""
-) repeat calculatedFrom{ repeat char[ 00  ] MetaDataX , }
-    , @tag(	65535
-)
-match falsey as
-    lengthOf {
-    7 : // c
-leftPad 1	:o
-    ""packet""
-:// " ++ [27880; 37322]%N ++ runes_of_ascii "
-asx ,// packet A { u8 x, }
-0123456789 : pack , [ 0123456789 , ""\n"" , ""abc"" , 00
-,""x y"" // " ++ [128512]%N ++ runes_of_ascii " emoji
-, 10
-]	: f32a , 42 :x ,} ,
-    lengthOf @lengthOf( float  )
-    //
-    ,
-// c
-//
-match _x
-as x  {
-    10 :options1	, ""packet"": chars
-//
-// `tick` ""quote"" 'q'
-, 42 :
-    o ,""1"":
-    // " ++ [128512]%N ++ runes_of_ascii " emoji
-    msg_type
-    [ ""a	b"" , ""\" ++ [233]%N ++ runes_of_ascii """ ,
-255,  ""it's"", 10 ] : // " ++ [27880; 37322]%N ++ runes_of_ascii "
-Pad
-,} , @calculatedFrom( ""\n"" )
-    @leftPad () @lengthOf( x ) zchar[00
-]
-    Header,
-a1
-    // a // b
-    {repeat f32 chars , float64 Foo ,
-    }, //	t
-}
-//x
-")).
-Eval vm_compute in ("<<<M4470>>>" ++ check (runes_of_ascii "options {
-    StringPrefixLenType = u16;
-    ArrayPrefixLenType = u8;
+Eval vm_compute in ("<<<M3657>>>" ++ check (runes_of_ascii "options {
+    ArrayPrefixLenType = u16;
     FixedStringPadFromLeft = true;
-    FixedStringPadChar = ' ';
+    JavaPackage = ""com.example.msg"";
+    GoPackage = ""msg"";
+    GoModule = ""example.com/msg"";
 }
-
-packet Quote {
-    int64 OrderId,
-    char[] Ref,
-    @leftPad('0')
-    char[5] price,
+MetaData Meta {
+    u32 SeqNum `sequence number`,
+    char[8] Symbol `symbol`,
+    zchar[5] ZSym `z symbol`,
+    string Note,
+    Symbol AltSymbol `alias of symbol`,
+    f64 Price,
 }
-
-packet Heartbeat {
-    zchar[3] venue,
-    string Flags,
+packet Inner {
+    u8 a,
+    i16 b,
+    string c,
 }
-
-packet Trade {
-    repeat InTag787 {
-        i32 venue,
-        char[5] sym,
-        repeat InPx98 {
-            char[11] Qty,
-            Heartbeat,
-            char[] price,
-            u32 x,
-            float64 count,
-            repeat Quote,
-        },
-        zchar[7] Note,
-        repeat char[1] Tail,
-    },
-    repeat char[2] seqNo,
-    InTail55 {
-        repeat Quote,
-        string msgKind,
-        InPx18 {
-            char[] count,
-            repeat Quote,
-            uint16 Qty,
-        },
-        char[4] seqNo,
-        repeat Heartbeat,
-        repeat string sym,
-    },
-    repeat Quote,
-    Heartbeat,
-    @leftPad(' ')
-    char[10] OrderId,
+packet Inner2 {
+    u8 a2,
+    char[3] c2,
 }
-
-root packet Fill {
-    Heartbeat,
-    uint32 count,
-    u8 OrderId,
-    match OrderId as Body {
-        96 : Quote,
-        195 : Trade,
-        187 : Heartbeat,
-    },
-    u32 venue @calculatedFrom(""CR\
-    C32""),
-}")).
-Eval vm_compute in ("<<<M1254>>>" ++ check (runes_of_ascii "options{ o = u8
-    ; pack = true ; x = string
-// @lengthOf(
-// `tick` ""quote"" 'q'
-} packet i64_// packet A { u8 x, }
-{ @tag( 42
-    /// triple
-    )	@tag( 10
-)	@lengthOf(len )
-    match i8i8 as int // a // b
-{ [
-""""
-,007 , ""abc""
-    ,
-00 , 255
-, 00	,
-    """ ++ [28040; 24687]%N ++ runes_of_ascii """]
-    : MetaDataX ,
-    10: _x , 4294967296 :BodyLength
-    ,
-    ""packet"" : len // packet A { u8 x, }
-,""a	b""	: float , 10
-    : f32a
-}
-, zchar  `// not a comment`/// triple
-, u64 BodyLength	, @leftPad
-    /// triple
-    (
-)@calculatedFrom( ""abc""
-    ) match
-Foo as //
-T {
-    [
-    10
-,""a	b"" ,	0123456789,
-""it's""	, 3 ] :	pack ,  [ 3 ,
-""CRC32"",
-""it's""
-, // @lengthOf(
-""CRC32"" ,
-""CRC32""
-    ] :
-crc , // c
-""packet"" : //
-msg_type ,
-}
-    ,
-string_ o
-    , @leftPad( ) char[] Header//	t
-`{ , }`
-    ,
-@tag(  007)
-    @lengthOf(  u128)
-pack
-    f32a , // packet A { u8 x, }
-repeat tag{ repeat
-As
-    {
-trueish,	}
-,
-repeat
-    trueish { zchar[ 65535 ]stringy	,
-    // " ++ [27880; 37322]%N ++ runes_of_ascii "
-    }, zchar[ 65535]repeatCount// packet A { u8 x, }
-, repeat u8 stringy , }  ,
-} MetaData _x {string	o `" ++ [28040; 24687; 31867; 22411]%N ++ runes_of_ascii "`,matchKey trueish ,}
-options
-    { Packet=
-' ' ; }
-")).
-Eval vm_compute in ("<<<M252>>>" ++ check (runes_of_ascii "packet u  { Header {
-float64	Foo@lengthOf( Pad
-    ) `{ , }`,	leftPad @calculatedFrom(""a	b"" )
-    ,msg_type {
-Z9_	@lengthOf(
-    u8x ) ,
-    falsey , len @lengthOf( float // " ++ [27880; 37322]%N ++ runes_of_ascii "
-) `it's`
-    , repeat int64
-options1	`a\` , } , // trailing space 
-} ,
-//	t
-// " ++ [128512]%N ++ runes_of_ascii " emoji
-falsey// `tick` ""quote"" 'q'
-u8x , zchar[  1 ]
-x `` ,
-    @lengthOf( uint8x
-) crc
-    @lengthOf(matchKey )  , repeat f32 string_
-// `tick` ""quote"" 'q'
-//
-,packetx,
-    // " ++ [27880; 37322]%N ++ runes_of_ascii "
-    u8x
-    { f64
-Header , repeat uint8 uint8x , x_y_z
-{  match string_
-// " ++ [27880; 37322]%N ++ runes_of_ascii "
-//	t
-as a1 { [// `tick` ""quote"" 'q'
-255
-]  : f32a// @lengthOf(
-, [
-""packet""  ,""1"" , 00 ,
-    """ ++ [128512]%N ++ runes_of_ascii """,  4294967296 , 4294967296]:Logon , } , pack @lengthOf( options1 ), zchar[  1 ] crc ``,}	, } , rootA zchar ,}
-options { uint8x
-= 4294967296
-// " ++ [27880; 37322]%N ++ runes_of_ascii "
-// @lengthOf(
-tag // `tick` ""quote"" 'q'
-=
-float32 ; o = true ; // trailing space 
-rootA =
-    // @lengthOf(
-    ""packet"" ; } //x
-packet float
-    {
-    } // " ++ [27880; 37322]%N ++ runes_of_ascii "
-options	{ // " ++ [27880; 37322]%N ++ runes_of_ascii "
-msg_type// c
-= i16 ;
-    trueish = zchar[ 1 ] ; Logon =
-    ""abc"" rootA = i16 ; } MetaData rootA
-{
-}
-")).
-Eval vm_compute in ("<<<M894>>>" ++ check (runes_of_ascii "packet leftPad{	char[]
-matchKey@lengthOf( MetaDataX ) , }
-options
-{
-}
-    packet
-    f32a {
-@lengthOf(
-int
-) @leftPad
-('\x00' )
-@calculatedFrom(
-""\" ++ [233]%N ++ runes_of_ascii """
-    // a // b
-    )  repeat
-    T BodyLength ,@leftPad
-('\x00' )uint16 body @calculatedFrom(  ""{,}"" ) `" ++ [233]%N ++ runes_of_ascii "` , @leftPad	(  ' '
-    // trailing space 
-    )
-    match Z9_ as Foo // a // b
-{ 7
-: MetaDataX
-,
-    4294967296 :// c
-options1 , ""x y"" :
-A} ,	repeat zchar[
-    10 //x
-] f32a
-    `it's`//
-, // trailing space 
-} packet x_y_z{ uint32 _x
-    , MetaDataX { trueish metadata  ,char[
-    // " ++ [128512]%N ++ runes_of_ascii " emoji
-    42 ]
-// " ++ [27880; 37322]%N ++ runes_of_ascii "
-//	t
-falsey, } //x
-, char[] packetx//
-`it's`  , falsey , repeat metadata `it's` ,//x
-@tag(
-42)
-x
-@calculatedFrom(	""x y"" ) , @lengthOf( float // a // b
-)
-    // packet A { u8 x, }
-    repeat Foo{ asx
-// a // b
-// " ++ [128512]%N ++ runes_of_ascii " emoji
-{ repeat char[]crc	`a\`, repeat A ,
-} , u  Packet `say ""hi""`, roots @calculatedFrom(/// triple
-""{,}"" // trailing space 
-) , zchar[ 65535
-]
-f32a @lengthOf( o) ,  }
-    ,
-// @lengthOf(
-// @lengthOf(
-}")).
-Eval vm_compute in ("<<<M4406>>>" ++ check (runes_of_ascii "packet leftPad {
-}
-
-packet u {
-    @leftPad(' ')
-    char[65535] leftPad,
-    int8 packetx,
-    string stringy `crlf
-    line`,
-    @leftPad(' ')
-    // " ++ [128512]%N ++ runes_of_ascii " emoji
-    i64 x @lengthOf(u) `" ++ [28040; 24687; 31867; 22411]%N ++ runes_of_ascii "`,
-    @lengthOf(pack)
-    // a // b
-    //
-    u64 asx @lengthOf(repeatCount) `u8 x,`,
-    o A,
-}
-
-root packet charz {
-    char[] repeatCount @lengthOf(tag) ``,
-    repeat pack `a\`,
-    @calculatedFrom(""// no comment"")
-    T {
-        string rootA @calculatedFrom(""{,}""),
-    },
-    repeat As Foo,
-    char[3] trueish,
-    @calculatedFrom("""")
-    @lengthOf(metadata)
-    @leftPad('0')
-    repeat u64 float `{ , }`,
-    stringy {
-        // packet A { u8 x, }
-        // c
-        metadata {
-            u8 f32a `two words`,
-            repeat char[007] f32a `
-            `,
-        },
-        u32 asx @calculatedFrom(""" ++ [233]%N ++ runes_of_ascii "t" ++ [233]%N ++ runes_of_ascii """),
-        float64 i8i8,//x
-    },
-    // c
-    // " ++ [27880; 37322]%N ++ runes_of_ascii "
-    match lengthOf as zchar {
-        00 : o,
-    },
-}")).
-Eval vm_compute in ("<<<M3643>>>" ++ check (runes_of_ascii "options {
-    LittleEndian = false;
-    FixedStringPadFromLeft = false;
-    FixedStringPadChar = ' ';
-}
-packet Fill {
-    uint16 Qty,
-    uint64 clOrdID,
-    repeat i64 Flags,
-}
-packet Ack {
-    zchar[7] clOrdID,
-    u64 lastPx,
-    char[] Note,
-    repeat Fill,
-    int32 count,
-}
-packet Quote {
-    u8 venue,
-    InRef40 {
-        char[] Qty,
-    },
-    zchar[5] Flags,
-    @rightPad('\x00') char[12] msgKind,
+packet Logon {
+    u8 x,
+    string user,
+    repeat u16 codes,
 }
 packet Logout {
-    InSym79 {
-        int32 Qty,
-        Fill,
-        char[3] x,
-        repeat InNote29 {
-            i16 price,
-            Ack,
-            f64 x,
-            zchar[8] count,
+    u16 reason,
+}
+packet Empty {
+}
+root packet Msg {
+    u8 su8,
+    uint8 luint8,
+    u16 su16,
+    uint16 luint16,
+    u32 su32,
+    uint32 luint32,
+    u64 su64,
+    uint64 luint64,
+    i8 si8,
+    int8 lint8,
+    i16 si16,
+    int16 lint16,
+    i32 si32,
+    int32 lint32,
+    i64 si64,
+    int64 lint64,
+    f32 sf32,
+    float32 lfloat32,
+    f64 sf64,
+    float64 lfloat64,
+    char[6] fsplain,
+    @leftPad('0') char[4] fs0,
+    @rightPad('0') char[5] fs1,
+    @leftPad(' ') char[6] fs2,
+    @rightPad(' ') char[7] fs3,
+    @leftPad('\x00') char[8] fs4,
+    @rightPad('\x00') char[9] fs5,
+    @leftPad() char[10] fs6,
+    @rightPad() char[11] fs7,
+    zchar[7] fz,
+    @leftPad('0') zchar[3] fzl0,
+    string s1 `doc`,
+    char[] s2,
+    Inner,
+    Sub {
+        u8 q,
+        string w,
+        Deep {
+            u16 z,
+            repeat i32 zs,
+        },
+    },
+    repeat u8 ru8,
+    repeat u16 ru16,
+    repeat u32 ru32,
+    repeat u64 ru64,
+    repeat i8 ri8,
+    repeat i16 ri16,
+    repeat i32 ri32,
+    repeat i64 ri64,
+    repeat f32 rf32,
+    repeat f64 rf64,
+    repeat string rstr,
+    repeat char[] rstr2,
+    repeat char[3] rfs,
+    repeat zchar[3] rfz,
+    repeat Inner2,
+    repeat Grp {
+        u8 k,
+        char[2] v,
+    },
+    SeqNum,
+    SeqNum seq2,
+    repeat SeqNum seqs,
+    Symbol,
+    AltSymbol alt,
+    ZSym,
+    Note,
+    repeat Symbol syms,
+    Price px,
+    u16 MsgType,
+    u32 BodyLen @lengthOf(Body),
+    match MsgType as Body {
+        1 : Logon,
+        [2, 3] : Logout,
+        7 : Logon,
+        9 : Empty,
+    },
+    u32 Checksum @calculatedFrom(""CRC32""),
+}
+")).
+Eval vm_compute in ("<<<M4145>>>" ++ check (runes_of_ascii "
+packet zchar
+
+    /// triple
+    {
+    match calculatedFrom
+	as
+repeatCount{ [
+	""{,}""]
+: zchar 
+,
+00 :	Pad
+
+    ,
+
+    0
+    : 
+pack
+, }	, 	 // @lengthOf(
+		f64
+
+    o
+
+    `" ++ [28040; 24687; 31867; 22411]%N ++ runes_of_ascii "` ,int32 f32a
+	@lengthOf(
+
+body )//
+  `
+`
+, 
+char[
+	3 
+]
+
+    chars  //	t
+  `crlf
+line` , }
+        // @lengthOf(
+
+	// packet A { u8 x, }
+
+  MetaData  metadata{
+string int
+
+, len lengthOf ,	}
+root  packet  A 
+{ 
+@tag( 0123456789
+)zchar[ 
+0123456789
+    ] BodyLength  // " ++ [27880; 37322]%N ++ runes_of_ascii "
+  	, @leftPad  (
+    '0')
+    @rightPad
+	(' '  //
+  ) zchar[
+    0123456789	] tag  `it's` 
+, 
+@tag(007
+
+) // trailing space 
+  	@tag(
+	7
+)
+    falsey
+	@calculatedFrom(""\" ++ [233]%N ++ runes_of_ascii """//
+	)
+    ,
+@calculatedFrom( ""{,}""	)
+repeat Packet
+	,
+    @lengthOf(
+    u  )	@calculatedFrom(""a\""b"" 
+      // a // b
+  // `tick` ""quote"" 'q'
+    ) @lengthOf(
+lengthOf)
+
+    char[]	uint8x,  @leftPad 
+(
+
+    '\x00')  // trailing space 
+	repeat T
+{i8i8	a1 
+,char[
+65535]	chars 
+`u8 x,` , Pad
+	,
+	}, @lengthOf(
+o
+
+)  u8
+x
+	, @calculatedFrom( // @lengthOf(
+	""a	b""	) lengthOf  //
+`// not a comment`
+	, 
+A
+
+    {repeat
+calculatedFrom
+
+matchKey ,	options1 @calculatedFrom( ""a	b"" ) ,// trailing space 
+    repeat	u
+
+`line1
+line2`
+,
+
+    }
+,
+	}
+
+    packet	i8i8
+
+{
+	} 
+packet 
+pack 
+{ zchar[
+0123456789	]
+leftPad
+	`
+`
+    ,
+
+@rightPad  ('\x00'
+	) repeat  int `" ++ [28040; 24687; 31867; 22411]%N ++ runes_of_ascii "`, match Packet
+as
+BodyLength  // @lengthOf(
+{
+
+[
+
+00  // a // b
+	  , 7]	//x
+:falsey } ,
+@tag(	00) repeat
+
+    zchar[
+
+    1
+
+]
+len // a // b
+
+  `u8 x,`,
+
+@leftPad
+
+    ( )rootA
+    //	t
+	//	t
+  @lengthOf(
+len ), @tag( 42 ) // `tick` ""quote"" 'q'
+    @lengthOf( i64_ ) repeat
+
+len{ x{Logon
+{ options1
+	Logon 
+,
+	}
+    ,	stringy	{	string body  @lengthOf( 
+tag  ) 
+,}
+
+, falsey
+
+falsey,
+
+    } //x
+
+, MetaDataX roots`// not a comment`
+
+,	}
+
+    , 
+}
+")).
+Eval vm_compute in ("<<<M1138>>>" ++ check (runes_of_ascii "packet T { @lengthOf(
+Foo ) @tag( 10 )@lengthOf(rootA )chars `it's`,repeat
+    char roots //	t
+,
+@tag(	0 ) match  charz as leftPad { 0 :tag
+,} , Z9_ // trailing space 
+u128 ,
+    int32 int@calculatedFrom(  ""\n""  ) , @lengthOf( int )	Z9_
+    // " ++ [27880; 37322]%N ++ runes_of_ascii "
+    {
+    repeat	char[] calculatedFrom`crlf
+line`
+,	zchar[0
+    ] o @calculatedFrom( ""\" ++ [233]%N ++ runes_of_ascii """ ) ,
+    u8x{_x
+, // @lengthOf(
+zchar[ 3 ] stringy @lengthOf( T) //	t
+,
+    // trailing space 
+    uint8
+body
+    , char[]falsey
+// `tick` ""quote"" 'q'
+// @lengthOf(
+@calculatedFrom( ""// no comment"" ) `" ++ [233]%N ++ runes_of_ascii "` , /// triple
+}
+, }
+    , @tag(
+1 )@calculatedFrom(""a\\""
+    )
+    // c
+    @rightPad(
+    '0')
+    i32 tag @calculatedFrom(
+    ""a\""b""
+) `crlf
+line` , match
+    BodyLength as	f32a
+    {[ 3
+    ,""`tick`"" , ""`tick`"" , 007 , ""1"" , 65535// " ++ [128512]%N ++ runes_of_ascii " emoji
+, //	t
+1	,  0
+] :
+Z9_ ,
+[ ""CRC32"" ,
+    ""a\\""
+] :
+chars
+,
+""a\""b""
+: roots , 1
+: f32a
+    , // " ++ [27880; 37322]%N ++ runes_of_ascii "
+}
+    , trueish{
+//
+/// triple
+zchar{ match Pad
+as tag {  [
+0123456789 , 00
+,
+    7,""a	b"" , // @lengthOf(
+""CRC32"" ] :
+    options1 ,
+    // @lengthOf(
+    } , pack  { zchar[ 10
+]
+    chars ,}	,u `crlf
+line`  , repeat // " ++ [27880; 37322]%N ++ runes_of_ascii "
+int32 _x `two words` ,  } , }, // trailing space 
+falsey
+    As , } options {falsey // " ++ [128512]%N ++ runes_of_ascii " emoji
+=
+    ""abc"" ; Foo=	false ; } root
+packet
+A { @lengthOf(uint8x ) match u8x as
+msg_type
+{ [
+007 , 00 ]: u128 , [	255 ,// a // b
+""{,}""
+    ,
+    10
+// " ++ [128512]%N ++ runes_of_ascii " emoji
+// " ++ [27880; 37322]%N ++ runes_of_ascii "
+, ""// no comment""	,""""  ,
+    """ ++ [128512]%N ++ runes_of_ascii """ ] :
+T ,255:string_ , ""`tick`"" :
+As
+},
+}MetaData chars
+{
+char[	65535 ]
+roots, i64 u128 , char[ 42]	pack // " ++ [128512]%N ++ runes_of_ascii " emoji
+,} //x")).
+Eval vm_compute in ("<<<M4404>>>" ++ check (runes_of_ascii "//x
+  packet Header{
+
+    body 
+// " ++ [27880; 37322]%N ++ runes_of_ascii "
+    // " ++ [27880; 37322]%N ++ runes_of_ascii "
+@calculatedFrom(
+	""CRC32"")
+
+    `it's` 
+, repeat
+
+    int64	//x
+    	msg_type // " ++ [128512]%N ++ runes_of_ascii " emoji
+
+	,
+//	t
+    //
+  @tag( 0)	zchar[
+
+    0	//
+  ]
+    int
+    //	t
+
+// @lengthOf(
+
+,
+}
+	// " ++ [128512]%N ++ runes_of_ascii " emoji
+  options
+    { Packet	=true
+
+    MetaDataX
+=
+    """ ++ [28040; 24687]%N ++ runes_of_ascii """
+A
+= 
+string	}
+root 
+packet
+    Logon
+
+{
+    @leftPad// " ++ [27880; 37322]%N ++ runes_of_ascii "
+		(	'0'  //x
+	)
+Header	//
+    leftPad `doc`
+,f32a  {
+rootA@lengthOf(calculatedFrom  )
+, int8
+Packet
+
+    `line1
+line2`
+
+,  }, 
+repeat
+    calculatedFrom
+
+    { // `tick` ""quote"" 'q'
+
+match packetx 
+as len{
+
+1 :  matchKey	,
+
+0123456789
+	: repeatCount 
+,""\" ++ [233]%N ++ runes_of_ascii """
+: float
+
+    ,
+255
+
+:
+MetaDataX
+,} ,
+
+    } 
+,
+
+    //x
+// " ++ [27880; 37322]%N ++ runes_of_ascii "
+leftPad{
+
+repeat
+roots
+{  //	t
+roots@calculatedFrom( 	 /// triple
+""abc"" 
+) , int32	BodyLength
+@calculatedFrom(
+""packet""
+
+)
+    , } ,match
+	repeatCount
+as matchKey {""abc""
+:u128 ,	""" ++ [128512]%N ++ runes_of_ascii """ : a1  ,""a\\""	: rootA
+,[
+	3
+,3 
+]	// c
+
+	:
+    x_y_z 007
+    :  Foo	}
+
+    ,
+
+    }  ,// c
+		repeat
+rootA	matchKey `it's`	//	t
+	,a1
+
+    @calculatedFrom( ""x y""
+)	`line1
+line2` , int
+,	@tag( 
+
+// trailing space 
+  //x
+    65535
+
+    )
+	match
+
+    metadata as
+	As	{""x y""  :Foo,//x
+  [ // `tick` ""quote"" 'q'
+  ""x y""
+]  :
+tag 
+      //
+// a // b
+  , 
+3
+    :
+pack 
+}
+,
+    repeat
+int8
+charz
+
+, 
+char[]
+	body	,
+}
+    options {MetaDataX=
+char[ 0 ];
+}	// a // b
+")).
+Eval vm_compute in ("<<<M1189>>>" ++ check (runes_of_ascii "// " ++ [27880; 37322]%N ++ runes_of_ascii "
+packet a1
+    // " ++ [27880; 37322]%N ++ runes_of_ascii "
+    { @calculatedFrom( """ ++ [233]%N ++ runes_of_ascii "t" ++ [233]%N ++ runes_of_ascii """)Logon { options1
+falsey `// not a comment`, Z9_@calculatedFrom( ""packet"" ), int8
+    // trailing space 
+    Packet  `two words`
+// " ++ [128512]%N ++ runes_of_ascii " emoji
+// a // b
+,
+}
+, @tag(	007 )
+    char[] chars@lengthOf( Packet ) `crlf
+line` ,
+    match msg_type as Header { """ ++ [28040; 24687]%N ++ runes_of_ascii """ : _x //x
+}, repeat
+    //
+    u128  { Logon @calculatedFrom( ""it's"" ) `{ , }` , }
+// " ++ [128512]%N ++ runes_of_ascii " emoji
+// c
+,	int64
+calculatedFrom // c
+, repeat zchar[
+0
+    ] a1 `say ""hi""`
+    , match options1	as repeatCount
+{[
+    //x
+    ""1""
+, ""`tick`"" ,
+//
+// " ++ [128512]%N ++ runes_of_ascii " emoji
+10,
+""\" ++ [233]%N ++ runes_of_ascii """,0123456789 , ""a\""b"" ]
+    :pack,// @lengthOf(
+0123456789
+    // " ++ [128512]%N ++ runes_of_ascii " emoji
+    :
+    // packet A { u8 x, }
+    Logon
+, 255 :	x } ,
+@calculatedFrom( ""abc"" )@lengthOf(
+// packet A { u8 x, }
+// " ++ [128512]%N ++ runes_of_ascii " emoji
+x )
+    repeat
+Pad{ u8x
+{
+uint8	T @lengthOf(float )  ,match Header // `tick` ""quote"" 'q'
+as // a // b
+trueish { ""a	b"":
+    body//	t
+, }
+,int8 MetaDataX @calculatedFrom(
+    ""a	b"") ,	i8i8
+    Pad `" ++ [28040; 24687; 31867; 22411]%N ++ runes_of_ascii "`
+,} , repeat i8
+    //
+    A , // trailing space 
+}	,
+    uint32
+    x@lengthOf(
+Logon ) /// triple
+`two words`
+, } packet trueish { }MetaData
+    // @lengthOf(
+    msg_type
+    { } packet
+i8i8 {  @tag( 007)
+    //x
+    zchar[ 10
+    ] /// triple
+msg_type
+    , }
+")).
+Eval vm_compute in ("<<<M1068>>>" ++ check (runes_of_ascii "
+packet Packet{
+    @leftPad
+// a // b
+// a // b
+( ' ' )
+    repeat As{ repeatCount
+@calculatedFrom(""" ++ [28040; 24687]%N ++ runes_of_ascii """
+) ,	repeat pack { /// triple
+x {match As
+as uint8x  { [
+    ""1""
+, ""\" ++ [233]%N ++ runes_of_ascii """ , 00 ,""it's"",	""a\""b"" ,
+    ""\" ++ [233]%N ++ runes_of_ascii """
+] :
+// " ++ [128512]%N ++ runes_of_ascii " emoji
+// packet A { u8 x, }
+pack[ ""a\""b"",""" ++ [233]%N ++ runes_of_ascii "t" ++ [233]%N ++ runes_of_ascii """
+    ,
+65535
+    ,	""a	b"" ,
+""`tick`"" ,
+//	t
+//x
+""\n""
+// " ++ [128512]%N ++ runes_of_ascii " emoji
+// packet A { u8 x, }
+]: As
+,
+0123456789  : float , /// triple
+""a	b"" :
+    x_y_z
+, [ ""abc"" ] :
+    stringy // trailing space 
+} ,  f64
+    MetaDataX ,zchar[
+0123456789 ] charz ,
+}, crc // trailing space 
+{ char[]x_y_z // c
+`
+`
+,	match Z9_
+    as i8i8	{  00	:
+// c
+//	t
+charz, } ,}	,	i8 // a // b
+_x
+,
+repeat falsey
+    {
+    // `tick` ""quote"" 'q'
+    char[
+65535 // a // b
+]
+    Packet @calculatedFrom(
+""x y""
+) `line1
+line2` ,	} ,}
+, f32a // packet A { u8 x, }
+MetaDataX
+    `" ++ [233]%N ++ runes_of_ascii "`
+, repeat//	t
+matchKey{int32
+int `crlf
+line`	,
+} ,} , float{ string	As
+`// not a comment` , As
+, stringy ,
+    } ,
+@tag( 00	) Foo ,	repeat int16	Z9_, @lengthOf(u8x )
+    u8x{ repeat	uint64 asx ,
+// packet A { u8 x, }
+//
+repeat int
+    // packet A { u8 x, }
+    `` , char[
+1 ] uint8x @calculatedFrom(
+    ""\" ++ [233]%N ++ runes_of_ascii """
+) ,
+    } ,  x , }
+")).
+Eval vm_compute in ("<<<M3854>>>" ++ check (runes_of_ascii "packet rootA {
+    metadata {
+        int32 body `doc`,
+        repeat calculatedFrom u8x,
+        u32 float,
+    },
+    @lengthOf(T)
+    u8x Header,
+    repeat u16 Z9_,
+    @leftPad('0')
+    repeat Z9_ {
+        stringy msg_type `
+        `,
+        As {
+            match i8i8 as chars {
+                10 : len,
+                [""abc"", 42, 7] : leftPad,
+                42 : lengthOf,
+                00 : zchar,
+                //x
+            },
+            i32 i64_,
+            repeat lengthOf msg_type ``,
+        },
+        int16 Packet @calculatedFrom(""packet""),
+    },
+    len @lengthOf(float) `two words`,
+    @calculatedFrom(""a\""b"")
+    repeat pack,
+    @tag(0)
+    float32 tag `tab	here`,
+    rootA @calculatedFrom(""// no comment""),
+    @lengthOf(x_y_z)
+    msg_type {
+        match crc as string_ {
+            0 : u8x,
+            10 : crc,
+            ""x y"" : Pad,
+            3 : a1,
+            007 : x,
+            [""""] : A,
+        },
+    },
+    @calculatedFrom(""CRC32"")
+    @rightPad(' ')
+    @tag(10)
+    match zchar as body {
+        65535 : tag,
+    },
+}")).
+Eval vm_compute in ("<<<M4225>>>" ++ check (runes_of_ascii "packet u128 {
+    @lengthOf(x_y_z)
+    @lengthOf(stringy)
+    @lengthOf(_x)
+    zchar[4294967296] asx @calculatedFrom(""\" ++ [233]%N ++ runes_of_ascii """) `
+        `,
+    char[0] matchKey,
+    rootA u128,
+    metadata metadata,
+    zchar[3] string_ `" ++ [233]%N ++ runes_of_ascii "`,
+    // `tick` ""quote"" 'q'
+    // " ++ [27880; 37322]%N ++ runes_of_ascii "
+    @calculatedFrom(""a	b"")
+    char roots `" ++ [28040; 24687; 31867; 22411]%N ++ runes_of_ascii "`,
+    repeat zchar[10] pack `
+        `,
+    @calculatedFrom(""{,}"")
+    @lengthOf(Foo)
+    packetx {
+        // " ++ [128512]%N ++ runes_of_ascii " emoji
+        match i8i8 as Header {
+            255 : Z9_,
+            """ ++ [233]%N ++ runes_of_ascii "t" ++ [233]%N ++ runes_of_ascii """ : tag,
+            [
+                7, 1, ""// no comment"", ""// no comment"", 3,
+                """", 1
+            ] : lengthOf,
+            3 : asx,
+            [42, 0, 1] : Z9_,
+            10 : A,
         },
     },
 }
-root packet Logon {
-    zchar[1] sym,
-    u32 count,
-    u16 tag7 @lengthOf(Body),
-    match count as Body {
-        [122, 152] : Ack,
-        118 : Logout,
-        61 : Quote,
-        161 : Fill,
+
+root packet T {
+    /// triple
+    int32 roots `two words`,
+    stringy,
+    @rightPad('\x00')
+    float64 len @lengthOf(o),
+    match body as uint8x {
+        10 : tag,
     },
-    u32 Acct @calculatedFrom(""CR\
-C32""),
+    repeat u8 Pad `" ++ [28040; 24687; 31867; 22411]%N ++ runes_of_ascii "`,
+    repeat char[] float,
+    @calculatedFrom(""packet"")
+    u16 x @lengthOf(u8x),
+}//x")).
+Eval vm_compute in ("<<<M411>>>" ++ check (runes_of_ascii "packet zchar { @calculatedFrom( ""a\\""
+// @lengthOf(
+// " ++ [27880; 37322]%N ++ runes_of_ascii "
+)f32a`{ , }` , match // c
+calculatedFrom as pack {""" ++ [233]%N ++ runes_of_ascii "t" ++ [233]%N ++ runes_of_ascii """
+    // a // b
+    :As , 0123456789
+:
+i8i8 ,4294967296	:
+A , } ,
+//x
+// trailing space 
+i32
+    packetx `say ""hi""`, repeatCount
+// `tick` ""quote"" 'q'
+// " ++ [128512]%N ++ runes_of_ascii " emoji
+{
+//
+/// triple
+repeat falsey {rootA // c
+{ T Logon	`a\`,
 }
+,char[
+    007]
+// trailing space 
+// " ++ [27880; 37322]%N ++ runes_of_ascii "
+A // trailing space 
+, } , // trailing space 
+} ,
+repeat
+// " ++ [128512]%N ++ runes_of_ascii " emoji
+// " ++ [27880; 37322]%N ++ runes_of_ascii "
+Packet
+    {  int64
+    matchKey
+    ,
+}
+, // c
+string _x `crlf
+line` ,float
+    { repeat
+u8x {metadata@calculatedFrom( //
+""a\\"" )`it's`
+    ,
+}
+    , },
+@lengthOf( o
+)
+    @tag(
+00  ) @tag( 0123456789
+    )
+    // a // b
+    falsey {repeat asx `crlf
+line`, repeat // a // b
+o , }  ,@tag( 00)
+    match
+// `tick` ""quote"" 'q'
+// `tick` ""quote"" 'q'
+float
+    as Foo
+    { """ ++ [128512]%N ++ runes_of_ascii """ : tag , } , @tag(
+255 )	repeat i8i8 ,}// `tick` ""quote"" 'q'
+packet As { i8 a1@lengthOf( options1/// triple
+)	,}")).
+Eval vm_compute in ("<<<M544>>>" ++ check (runes_of_ascii "packet MetaDataX { @tag( 65535 )
+    match a1
+    as
+float
+{
+007 : Header } ,
+repeat char[65535
+    // " ++ [128512]%N ++ runes_of_ascii " emoji
+    ]pack , @lengthOf(Logon ) zchar[ 65535]metadata , char calculatedFrom , match roots as stringy
+{	""packet""
+: BodyLength// " ++ [128512]%N ++ runes_of_ascii " emoji
+,
+    [	""// no comment"" ] :tag , 0123456789 // " ++ [27880; 37322]%N ++ runes_of_ascii "
+:
+a1,	0 : roots ,  [
+""abc""	] :Header ,
+} ,
+repeat MetaDataX
+{ match Foo as lengthOf
+{
+    // a // b
+    ""CRC32""  :// " ++ [128512]%N ++ runes_of_ascii " emoji
+trueish }
+,
+match // @lengthOf(
+roots as metadata {	0 : body, } , u64	A ,
+    char[
+7]
+    Z9_,
+    //x
+    }
+    , Foo
+    { zchar[  10
+]roots @lengthOf( u8x// packet A { u8 x, }
+) `tab	here` // c
+,// trailing space 
+string_ crc ,u8x@lengthOf(	u128  )
+, }  ,
+@lengthOf(
+i8i8
+    )
+    // trailing space 
+    @calculatedFrom( ""abc""	) char[] // packet A { u8 x, }
+crc , @leftPad
+( ' ') @lengthOf(
+    // a // b
+    trueish // c
+) @lengthOf(  msg_type ) i8i8 asx	,
+    }")).
+Eval vm_compute in ("<<<M748>>>" ++ check (runes_of_ascii "MetaData	metadata{/// triple
+packetx Packet ,
+    // trailing space 
+    chars body , char[]MetaDataX ,u32
+    stringy ,float32
+packetx `" ++ [28040; 24687; 31867; 22411]%N ++ runes_of_ascii "` , }options {
+    lengthOf
+    = uint16 ; pack
+='0'
+; charz //x
+=
+char[]
+    ;	u // trailing space 
+= f64 ;
+    options1  = float32
+    ; }root // packet A { u8 x, }
+packet charz //x
+{ repeat
+uint32 float, stringy , // packet A { u8 x, }
+uint8x  {chars
+    { match Foo as u8x {""a\\"":
+int // a // b
+,
+    }
+    , string
+Z9_  @calculatedFrom(
+    // packet A { u8 x, }
+    """ ++ [28040; 24687]%N ++ runes_of_ascii """ ) `// not a comment` ,
+match trueish
+as MetaDataX {
+[ 0  ,  ""CRC32"" ,007
+    // a // b
+    ,007	, 0123456789 ] // packet A { u8 x, }
+: Foo
+    255 : falsey
+    , 007 :
+    _x 255 :
+    Header
+    007 :lengthOf""{,}""  : Header , } ,
+}
+, zchar[ 65535  ] leftPad `line1
+line2` , char[ 007
+] Z9_  @lengthOf(
+u8x  ) ,
+} , }
 ")).
-Eval vm_compute in ("<<<M4441>>>" ++ check (runes_of_ascii "packet int {
-    @lengthOf(pack)
-    f64 asx @calculatedFrom(""abc""),
-    @calculatedFrom(""\" ++ [233]%N ++ runes_of_ascii """)
-    f64 u `// not a comment`,// " ++ [128512]%N ++ runes_of_ascii " emoji
-    @lengthOf(stringy)
-    @tag(3)
-    @rightPad()
-    repeat float32 rootA,
-    msg_type @lengthOf(packetx),
-    @lengthOf(repeatCount)
-    @calculatedFrom(""`tick`"")
-    float lengthOf,
+Eval vm_compute in ("<<<M4218>>>" ++ check (runes_of_ascii "packet roots {
 }
 
-packet Pad {
-    repeat uint8x body `u8 x,`,
-    zchar {
-        u8 trueish,
-        float `
-                `,
-    },
-    @lengthOf(uint8x)
-    @lengthOf(float)
-    u64 T @calculatedFrom(""// no comment""),
+root packet metadata {
+    repeat float32 int,
+    _x @lengthOf(packetx) `
+        `,
+    repeat Packet Header,
+    @tag(0)
+    /// triple
+    float32 msg_type @calculatedFrom(""\" ++ [233]%N ++ runes_of_ascii """),
+    char[0] BodyLength,
+    len @calculatedFrom(""" ++ [28040; 24687]%N ++ runes_of_ascii """) `tab	here`,
+}
+
+root packet calculatedFrom {
+    @rightPad(' ')
+    tag @calculatedFrom(""// no comment""),
+    crc @calculatedFrom(""\" ++ [233]%N ++ runes_of_ascii """),
+    @lengthOf(u128)
+    @lengthOf(chars)
+    repeat lengthOf `tab	here`,
+    @tag(007)
+    char[] roots,
+    @calculatedFrom(""" ++ [233]%N ++ runes_of_ascii "t" ++ [233]%N ++ runes_of_ascii """)
+    repeat zchar[0] chars `crlf
+        line`,// `tick` ""quote"" 'q'
+    @calculatedFrom(""a\\"")
+    options1,
+    // " ++ [27880; 37322]%N ++ runes_of_ascii "
     @rightPad()
-    repeat options1 int,
-    @tag(00)
-    @lengthOf(string_)
-    @lengthOf(f32a)
-    string u,
-    match x as uint8x {
-        [""it's"", ""x y"", ""it's""] : i64_,
+    Z9_ {
+        float32 x_y_z @lengthOf(asx),
+        repeat float32 asx,
+        f32 zchar `" ++ [28040; 24687; 31867; 22411]%N ++ runes_of_ascii "`,
+        char[007] Packet `a\`,
     },
+}")).
+Eval vm_compute in ("<<<M1046>>>" ++ check (runes_of_ascii "// c
+packet
+i8i8{ } packet string_
+{  @rightPad ( '\x00'//x
+)
+    int Packet , // a // b
+@tag( 255 )
+matchKey , chars@calculatedFrom( ""packet"")
+`
+`	,  _x @lengthOf(u
+) , @tag(// c
+255 )asx Foo, string
+    roots ,	repeat
+    falsey {	matchKey { match Pad as
+i8i8 //x
+{ [ 00 , 7 ] : u , 1 : BodyLength , // a // b
+""// no comment""
+:	metadata ,
+""""
+// @lengthOf(
+//
+: BodyLength
+    /// triple
+    , } , }
+, A,
+repeat char falsey , } , // packet A { u8 x, }
+_x u `it's` ,
+@leftPad  (	'\x00')
+    @calculatedFrom(
+""\n""
+    )	match x_y_z as metadata { ""CRC32""
+: packetx // packet A { u8 x, }
+, ""packet""  :
+metadata 1
+    : string_// c
+, [ 0 , // " ++ [128512]%N ++ runes_of_ascii " emoji
+10 ]
+: // packet A { u8 x, }
+falsey // " ++ [27880; 37322]%N ++ runes_of_ascii "
+,} , char[] chars @lengthOf(zchar /// triple
+)`say ""hi""`	, } 	 ")).
+Eval vm_compute in ("<<<M1289>>>" ++ check (runes_of_ascii "packet string_
+    {A { // trailing space 
+zchar[1 ] // a // b
+len	,match leftPad	as metadata {
+    // " ++ [27880; 37322]%N ++ runes_of_ascii "
+    [
+    4294967296 ,
+    4294967296 , 00 , 1, ""{,}"" ,
+    007 /// triple
+, 7 ]
+: chars
+    /// triple
+    , 0
+: i64_
+    ,}, }
+    //	t
+    ,	uint8 charz`" ++ [233]%N ++ runes_of_ascii "`
+    // trailing space 
+    ,
+charz msg_type , @rightPad	(
+    ' '
+    )
+    @calculatedFrom( ""it's"" ) repeat a1
+`it's`
+, //x
+repeat Logon
+{ int o , metadata , zchar[
+    0] msg_type@calculatedFrom( """" ) , pack
+,} ,	@calculatedFrom(""it's"" )  char[
+    00 ] int `u8 x,`
+, i32
+charz
+`{ , }`,
+repeat f64 As `" ++ [28040; 24687; 31867; 22411]%N ++ runes_of_ascii "`
+/// triple
+// @lengthOf(
+,} MetaData //
+metadata
+{ string
+    falsey , }
+    packet o	{	float64 roots @lengthOf( body ) ,
+    //
+    }")).
+Eval vm_compute in ("<<<M1329>>>" ++ check (runes_of_ascii "packet
+leftPad
+{ @tag(
+1
+) i8 // a // b
+crc , float64 packetx `" ++ [233]%N ++ runes_of_ascii "` , lengthOf
+@lengthOf( charz
+    // trailing space 
+    ) , repeat
+    Packet ,	@lengthOf( u )  @lengthOf(// " ++ [27880; 37322]%N ++ runes_of_ascii "
+T )
+    repeat u16 uint8x `" ++ [28040; 24687; 31867; 22411]%N ++ runes_of_ascii "`,
+    zchar[  10
+]// a // b
+metadata ``
+    , match // packet A { u8 x, }
+trueish
+    as options1{0123456789
+: rootA
+    ,255: MetaDataX[""a\\"" ,/// triple
+""\n"",00
+, 10 ] : trueish ,	""CRC32"" :
+uint8x, 0 : Z9_ ,  ""1""// c
+: i8i8
+// `tick` ""quote"" 'q'
+// packet A { u8 x, }
+,} , @calculatedFrom( ""it's"" ) uint8 chars `
+` , } options
+    // @lengthOf(
+    {
+    f32a
+= i16 ; // " ++ [128512]%N ++ runes_of_ascii " emoji
+u
+    = ""abc"" }MetaData chars{	i16 lengthOf , Packet msg_type
+    `crlf
+line` ,} // " ++ [27880; 37322]%N)).
+Eval vm_compute in ("<<<M3793>>>" ++ check (runes_of_ascii "packet float {
+    match asx as len {
+        255 : metadata,
+    },
+    char[4294967296] x @lengthOf(lengthOf),
+    matchKey int,
+}
+
+packet falsey {
+    @tag(0123456789)
+    match u128 as stringy {
+        // " ++ [128512]%N ++ runes_of_ascii " emoji
+        0123456789 : u128,
+        // packet A { u8 x, }
+        [3, ""CRC32"", 7, 10, 0] : o,
+        1 : charz,
+        0123456789 : u,
+        255 : pack,
+    },
+}
+
+packet T {
+    // " ++ [27880; 37322]%N ++ runes_of_ascii "
+    @lengthOf(Z9_)
+    @rightPad('0')
+    @calculatedFrom(""// no comment"")
+    zchar[007] leftPad,
+    @calculatedFrom(""1"")
+    char[] As `two words`,
+    @leftPad('0')
+    repeat char[0123456789] x `// not a comment`,
+    char[1] _x,
+}")).
+Eval vm_compute in ("<<<M906>>>" ++ check (runes_of_ascii "packet // trailing space 
+A
+{ @tag( 0
+)
+    string
+i8i8`a\`
+    // packet A { u8 x, }
+    , float64
+    x @lengthOf( Header // " ++ [128512]%N ++ runes_of_ascii " emoji
+) `tab	here` // @lengthOf(
+,zchar[
+    3 ]	lengthOf ,
+// packet A { u8 x, }
+// " ++ [27880; 37322]%N ++ runes_of_ascii "
+o msg_type `{ , }` ,
+    //x
+    Logon // c
+@lengthOf( i64_)
+,@leftPad (
+' ' ) repeat As
+// packet A { u8 x, }
+// @lengthOf(
+,  match
+    len as leftPad
+    {""x y"" :
+    repeatCount , """ ++ [28040; 24687]%N ++ runes_of_ascii """ :
+packetx , ""x y"" : u8x ,
+4294967296:
+Header ""a	b"": roots,
+} , @calculatedFrom(
+// " ++ [128512]%N ++ runes_of_ascii " emoji
+/// triple
+""{,}"" )
+    // trailing space 
+    uint32// packet A { u8 x, }
+i64_ `line1
+line2`, } // " ++ [128512]%N ++ runes_of_ascii " emoji")).
+Eval vm_compute in ("<<<M4576>>>" ++ check (runes_of_ascii "packet matchKey {
+    match Header as chars {
+        [""" ++ [233]%N ++ runes_of_ascii "t" ++ [233]%N ++ runes_of_ascii """, 0] : body,
+        [42, 10] : msg_type,
+        """ ++ [128512]%N ++ runes_of_ascii """ : options1,
+        7 : roots,
+        ""\n"" : packetx,
+    },
+    zchar[0] A @lengthOf(int),
+    char[] Header `
+    `,// trailing space 
+    repeat float {
+        repeat o,// `tick` ""quote"" 'q'
+        repeat int32 x_y_z `
+        `,
+    },
+    @tag(0)
+    u64 string_ @calculatedFrom(""`tick`"") `two words`,
+    calculatedFrom {
+        matchKey,// packet A { u8 x, }
+        rootA,
+    },
+}
+
+options {
+    chars = """";
+    As = true;
+    Foo = 7;
+    lengthOf = ""a\\""
+}")).
+Eval vm_compute in ("<<<M1352>>>" ++ check (runes_of_ascii "options {tag =""`tick`"" }
+options { chars
+// c
+//
+=
+255 ;
+    // packet A { u8 x, }
+    int =
+""abc"" string_
+=
+    true
+    ;
+    body
+=  false asx = """ ++ [233]%N ++ runes_of_ascii "t" ++ [233]%N ++ runes_of_ascii """ ;// packet A { u8 x, }
+}
+    packet _x //x
+{
+repeat
+o  { char[ 00
+] f32a@calculatedFrom(
+    """"
+)	,
+f32a `a\`  , } , }packet falsey {
+} packet Z9_
+{ @tag( 0 ) @calculatedFrom( ""`tick`"" )
+    // a // b
+    @tag( 00 ) char[ 3 // " ++ [27880; 37322]%N ++ runes_of_ascii "
+] x @calculatedFrom( """"	) ,
+// @lengthOf(
+// packet A { u8 x, }
+Pad  @calculatedFrom( ""\" ++ [233]%N ++ runes_of_ascii """) ,@rightPad (  '0' ) char[]
+    trueish @lengthOf( packetx
+)
+, }
+// c
+")).
+Eval vm_compute in ("<<<M4317>>>" ++ check (runes_of_ascii "packet string_ {
+    BodyLength u128,
+}
+
+MetaData matchKey {
+}
+
+packet f32a {
+    repeat uint32 matchKey,
 }
 
 root packet trueish {
-    i8i8 `line1
-        line2`,
-}// " ++ [27880; 37322]%N ++ runes_of_ascii "
-
-packet tag {
-    //	t
-    float64 Foo ``,
-}")).
-Eval vm_compute in ("<<<M599>>>" ++ check (runes_of_ascii "root
-    packet options1{
-@lengthOf(  zchar ) charz `
-` , //	t
-Header {//
-char[ 00]
-msg_type, repeat zchar[
-007
-] Z9_ , } ,@tag(  10 )uint32 Foo , u32 u128
-@lengthOf(float ) `two words`  , repeat
-    char[ 7 ] stringy
-    ``
-    ,
-Packet @lengthOf( /// triple
-f32a ) , i64_
-pack
-, @calculatedFrom( ""packet"") repeat lengthOf { body @lengthOf(
-//
-// packet A { u8 x, }
-a1) `{ , }` //
-, x_y_z, },}
-    packet string_
-{ @calculatedFrom(
-    ""a	b""	) zchar[// `tick` ""quote"" 'q'
-0123456789 ] i64_	,@lengthOf(
-    calculatedFrom
-) u8x calculatedFrom , @tag( 1 )	repeat float32 BodyLength
-, chars crc
-, }root packet
-    f32a { i32 _x  , }packet falsey { repeat char[ 007
-    ] MetaDataX ,
-@leftPad ( '0' ) // `tick` ""quote"" 'q'
-packetx
-    , x@calculatedFrom( ""\" ++ [233]%N ++ runes_of_ascii """ ) , }
-")).
-Eval vm_compute in ("<<<M3835>>>" ++ check (runes_of_ascii "root packet pack {
-}
-
-MetaData falsey {
-    char[] A `// not a comment`,
-}
-
-packet uint8x {
-    repeat o {
-        u64 string_ @calculatedFrom(""" ++ [233]%N ++ runes_of_ascii "t" ++ [233]%N ++ runes_of_ascii """),
-    },
-    repeat string_ `" ++ [28040; 24687; 31867; 22411]%N ++ runes_of_ascii "`,
-    repeat u {
-        packetx @lengthOf(len) `doc`,
-    },
-    @lengthOf(u8x)
-    float32 MetaDataX @calculatedFrom(""" ++ [233]%N ++ runes_of_ascii "t" ++ [233]%N ++ runes_of_ascii """),
-    uint8 MetaDataX `it's`,
-    @rightPad('\x00')
-    repeat crc {
-        x_y_z @lengthOf(As) `line1
-        line2`,
-        i32 repeatCount,
-        // a // b
-        // @lengthOf(
-        repeat Pad {
-            repeat string_ `" ++ [233]%N ++ runes_of_ascii "`,
-            leftPad {
-                char[] float,
-            },
+    leftPad {
+        match BodyLength as i8i8 {
+            255 : metadata,
+            ""CRC32"" : metadata,
+            ""packet"" : a1,
         },
     },
-    @calculatedFrom(""it's"")
-    zchar[42] A @lengthOf(matchKey),
-    roots @calculatedFrom(""CRC32"") `a\`,
-}")).
-Eval vm_compute in ("<<<M1014>>>" ++ check (runes_of_ascii "packet	Header {
-char repeatCount@lengthOf(a1
-    ) , Packet @calculatedFrom( ""{,}""
-    )
-    `tab	here` ,
-    _x
-    `" ++ [28040; 24687; 31867; 22411]%N ++ runes_of_ascii "` ,  @tag(
-255 ) u32
-    string_	@calculatedFrom( ""{,}"" ) `line1
-line2`// packet A { u8 x, }
-, options1 @lengthOf( len
-)
-`u8 x,` , @leftPad ( ' ' )
-lengthOf { char[
-65535 ] options1// " ++ [128512]%N ++ runes_of_ascii " emoji
-, MetaDataX @calculatedFrom( """ ++ [28040; 24687]%N ++ runes_of_ascii """ ) , } , @leftPad  ( '\x00' ) zchar[ 255 ]
-    pack @calculatedFrom(
-    ""1"")
-`u8 x,`  , u32 Header , @lengthOf(
-    falsey)	@rightPad
-(' ' )
-//x
-//x
-@calculatedFrom(
-// " ++ [128512]%N ++ runes_of_ascii " emoji
-/// triple
-""a\\"" ) msg_type , }
-    root packet chars{
-} options {}MetaData Pad{
-    string
-    // " ++ [128512]%N ++ runes_of_ascii " emoji
-    _x
-`{ , }` ,  Packet u128, zchar[
-4294967296 ] A
-    ``
-, }")).
-Eval vm_compute in ("<<<M3746>>>" ++ check (runes_of_ascii "
-root
-
-    packet
-stringy {u @calculatedFrom(
-
-    ""packet"" 
-)  ``
-,  @calculatedFrom(
-    """ ++ [28040; 24687]%N ++ runes_of_ascii """
-)@lengthOf(  //x
-	Foo	// packet A { u8 x, }
-	)
-    @calculatedFrom(// trailing space 
-	""abc""
-
-)
-	u64
-
-    zchar
-
-, match
-
-    body  
-      // " ++ [128512]%N ++ runes_of_ascii " emoji
-    	// c
-    	as
-	// trailing space 
-    // " ++ [27880; 37322]%N ++ runes_of_ascii "
-  body
-
-    {
-
-0:
-
-charz
-""packet"":
-
-charz 
-,
-
-0123456789
-
-:	repeatCount,
-
-""\" ++ [233]%N ++ runes_of_ascii """:Foo } ,	repeat
-string
-    asx 
-`u8 x,`  , }
-
-MetaData 
-BodyLength	{string Z9_	, zchar[
-	0123456789 
-]  Header ,
-
-char[
-65535 ]
-asx
-	, zchar[
-255	] charz `// not a comment` ,	f32
-    crc ,}
-options {
-	}
-packet
-_x
-{
-	}  packet
-trueish{
-
-@calculatedFrom( """" )  x
-, 	 // " ++ [27880; 37322]%N ++ runes_of_ascii "
-  } ")).
-Eval vm_compute in ("<<<M576>>>" ++ check (runes_of_ascii "root packet roots  { }packet body{ @lengthOf(Pad ) repeat
-a1
-BodyLength , char[
-7
-    ]
-    stringy ,	zchar[
-255] asx
-, uint8x u128 , } options {Header
-=
-""\" ++ [233]%N ++ runes_of_ascii """ T =""abc""
-;
-    _x
-=zchar[  3 ];
-falsey = 65535;
-A =
-4294967296 } packet x{
-    @leftPad
-    (
-    //
-    ' ') @calculatedFrom( ""a	b"")
-    /// triple
-    @lengthOf(rootA // trailing space 
-)
-float64 rootA `a\` ,  f64 o	, repeat
-pack, @rightPad () uint64	u8x, @lengthOf(
-chars
-)	repeat  f64 _x// packet A { u8 x, }
-`two words` ,// c
-Pad
-Header `it's`,
-zchar[ 00 ] options1 @lengthOf( i8i8	),
-} packet u8x{
-    char[// @lengthOf(
-00 ] string_ @lengthOf( falsey  )
-, }")).
-Eval vm_compute in ("<<<M709>>>" ++ check (runes_of_ascii "options
-{ }  root packet a1 { @tag( 00
-)Logon , @calculatedFrom( ""{,}""
-)repeatCount
-// a // b
-// packet A { u8 x, }
-{ repeat float i64_ ,
-    match u8x // trailing space 
-as
-leftPad
-    // `tick` ""quote"" 'q'
-    {3 :u128 ,1	: i8i8
-//	t
-// " ++ [128512]%N ++ runes_of_ascii " emoji
-, 42 :
-    u128
-, """ ++ [233]%N ++ runes_of_ascii "t" ++ [233]%N ++ runes_of_ascii """
-: msg_type , [ 1,
-42 ] : A , } ,
-    repeat
-    i64 metadata ,
-} ,
-    match	len
-as	Z9_ { 255 :o,
-    0123456789 :Pad ,//
-[ 7
-, ""{,}""
-    , // trailing space 
-""abc"" , 007 ] :chars
-, 3
-: // packet A { u8 x, }
-packetx 00 ://
-o, /// triple
-} ,  zchar[ 0123456789
-    ]
-i64_
-@lengthOf(	chars ) , float32 trueish `" ++ [28040; 24687; 31867; 22411]%N ++ runes_of_ascii "` ,}
-")).
-Eval vm_compute in ("<<<M450>>>" ++ check (runes_of_ascii "  packet
-    body {
-    @tag( 00 ) zchar[
-255 ]
-//	t
-// `tick` ""quote"" 'q'
-zchar @calculatedFrom( ""it's"" ) , int8 i8i8	,
-    x_y_z @lengthOf(options1 )
-    ,
-    // packet A { u8 x, }
-    zchar[00
-] T,
-repeat float64
-chars , f64 repeatCount `doc` ,
-    repeat i64_
-repeatCount, repeat Header int
-    , uint16 len `line1
-line2`
-    ,
-@lengthOf(	Header)
-@tag( 0123456789
-) float64 u8x @lengthOf(options1 ) `u8 x,`
-    , }options { x = ""\" ++ [233]%N ++ runes_of_ascii """ ; }
-    // " ++ [128512]%N ++ runes_of_ascii " emoji
-    MetaData	trueish	{ options1 float ``  , // a // b
-zchar[ 3]
-    lengthOf , }options{ rootA
-    =""1""  T = """ ++ [128512]%N ++ runes_of_ascii """ }
-")).
-Eval vm_compute in ("<<<M888>>>" ++ check (runes_of_ascii "
-packet packetx //	t
-{
-lengthOf
-    @lengthOf( T )
-    // trailing space 
-    `// not a comment`
-, char[ 42] Header `two words` ,} packet
-    Logon { repeat
-string i64_ `u8 x,`
-, @rightPad ( )match calculatedFrom //
-as
-stringy /// triple
-{ [ 0123456789 , // trailing space 
-7  ,
-""1""
-, 1
-, ""`tick`""	]
-:
-    zchar
-, 3 //	t
-:
-packetx
-    [
-    10,""CRC32"" ]:	x
-[7 ]  :
-    // `tick` ""quote"" 'q'
-    Foo
-,[ ""CRC32""
-,
-10 ,
-// " ++ [27880; 37322]%N ++ runes_of_ascii "
-// packet A { u8 x, }
-65535 ,
-// " ++ [27880; 37322]%N ++ runes_of_ascii "
-// a // b
-7 ,""{,}"" ] : A // @lengthOf(
-, 00 :rootA
-    , }
-, } options{
-}
-")).
-Eval vm_compute in ("<<<M3639>>>" ++ check (runes_of_ascii "options 
-{
-
-LittleEndian  =
-
-    false 
-;
-
-ArrayPrefixLenType
-=u64
-	;  FixedStringPadChar= 
-'0'
-    ;}
-
-packet
-
-    Quote{
-
-repeat
-	InFlags37 {
-	char[] lastPx 
-, 
-} 
-, i16 tag7 
-,
-char[]f1,zchar[6 ]
-
-    Note , }
-	packet 
-Order
-{	u8 Ref, repeat
-Quote
-    ,
-	repeat
-    string  Acct , }root
-packet  Heartbeat{	repeat
-
-    Quote
-	,
-@leftPad
-('0'
-)
-	char[
-11 
-]  OrderId
-,
-
-zchar[8
-
-]
-    Ref , u32 Flags
-	,
-u32 Tail@lengthOf(  Body)
-	,
-    match
-	Flags 
-as
-Body
-
-{ 156 :	Order  ,7 :
-Quote, 
-}  ,
-
-    } ")).
-Eval vm_compute in ("<<<M950>>>" ++ check (runes_of_ascii "root
-packet // " ++ [128512]%N ++ runes_of_ascii " emoji
-msg_type
-    {
-zchar[ 1  ] float
-    @lengthOf( A )
-    // packet A { u8 x, }
-    , u8x {// @lengthOf(
-repeat trueish {match
-    crc as Logon {
-    [ 1, 7 ]
-: // @lengthOf(
-A
-,} , } ,  } ,@tag(255
-    // c
-    ) match A as options1 { 7:body ,
-    [	""x y"", 3 /// triple
-, 0 ,7  , 0123456789] : tag ,
-    ""x y"" : crc
-    }	,	match stringy// packet A { u8 x, }
-as Z9_ { ""it's""
-// a // b
-// " ++ [128512]%N ++ runes_of_ascii " emoji
-: x_y_z
-    //
-    ,	1
-:pack }
-, //	t
-}
-MetaData repeatCount
-    {
-}
-")).
-Eval vm_compute in ("<<<M4251>>>" ++ check (runes_of_ascii "MetaData o {
-}
-
-packet BodyLength {
-    @tag(255)
-    zchar[00] leftPad @lengthOf(float) `" ++ [233]%N ++ runes_of_ascii "`,
 }
 
 packet asx {
-    @leftPad()
-    char[] _x,
-    char[65535] trueish @calculatedFrom(""a\""b""),
-    int64 u,
-    match x as u8x {
-        255 : o,
-        65535 : asx,
-        ""a\\"" : string_,
-        ""\" ++ [233]%N ++ runes_of_ascii """ : f32a,
-        65535 : x_y_z,
-        7 : uint8x,
-    },
-    repeat msg_type {
-        u128 charz ``,
-        u64 options1,
-        repeat a1 ``,
-    },
-    repeatCount,
-}")).
-Eval vm_compute in ("<<<M4494>>>" ++ check (runes_of_ascii "packet o {
-    repeat MetaDataX,
-    uint64 f32a `" ++ [233]%N ++ runes_of_ascii "`,
-    f32 packetx `doc`,
     leftPad {
-        repeat len x,
-        zchar[0123456789] tag @lengthOf(MetaDataX),
-        chars {
-            zchar[65535] u8x `" ++ [28040; 24687; 31867; 22411]%N ++ runes_of_ascii "`,
-            u16 BodyLength @calculatedFrom(""`tick`"") `line1
-            line2`,
-            char[] stringy,
-            repeat i64_ charz `crlf
-            line`,// trailing space 
+        // `tick` ""quote"" 'q'
+        char[10] options1,
+        char[4294967296] Packet `a\`,
+        o `{ , }`,
+        Z9_ {
+            match Foo as T {
+                3 : a1,
+            },
         },
-        f32 msg_type,
     },
-    x ``,
 }")).
-Eval vm_compute in ("<<<M3623>>>" ++ check (runes_of_ascii "options {
-    LittleEndian = true;
-    StringPrefixLenType = u16;
-    ArrayPrefixLenType = u64;
-}
-packet Fill {
-}
-packet Logon {
-    repeat char[3] Tail,
-    zchar[6] venue,
-    repeat string Side2,
-}
-root packet Cancel {
-    char[] Flags,
-    char[] OrderId,
-    zchar[6] msgKind,
-    Fill,
-    char[] Acct,
-    u8 f1,
-    match f1 as Body {
-        188 : Fill,
-        5 : Logon,
-    },
-    u32 clOrdID @calculatedFrom(""CRC32""),
-}
-")).
-Eval vm_compute in ("<<<M218>>>" ++ check (runes_of_ascii "packet lengthOf {
-f64 lengthOf
-@lengthOf(a1
-)
-`" ++ [28040; 24687; 31867; 22411]%N ++ runes_of_ascii "`
-, uint64 Logon `" ++ [233]%N ++ runes_of_ascii "`
-,	string Pad@calculatedFrom( ""\n"" )
-/// triple
-// trailing space 
-,zchar[ 0123456789
-    ] Foo @lengthOf( charz )	`// not a comment` ,
-@rightPad ()match falsey
-    as Packet{ """"
-    :
-u ,
-65535 :
-float ,[  4294967296
-] :	trueish // trailing space 
-,	[10 ,0123456789 ]  :
-Logon , 1 : roots [  7 ,
-""\" ++ [233]%N ++ runes_of_ascii """ , 00
-    //
-    ]:
-float , } ,}
-")).
-Eval vm_compute in ("<<<M4129>>>" ++ check (runes_of_ascii "root packet x {
-    f64 trueish @calculatedFrom(""" ++ [28040; 24687]%N ++ runes_of_ascii """),
-    @calculatedFrom(""a	b"")
-    zchar[00] lengthOf,
-    char[] roots `tab	here`,
-    @leftPad('\x00')
-    char[] body,
-    // " ++ [27880; 37322]%N ++ runes_of_ascii "
-    Header {
-        string _x,
-        i32 falsey,
-        repeat uint8 Packet,//	t
-        float32 leftPad @lengthOf(u) `a\`,
-    },
-    int32 chars,
-    @calculatedFrom(""\n"")
-    repeat u32 roots,
-    o ``,
-}")).
-Eval vm_compute in ("<<<M114>>>" ++ check (runes_of_ascii "packet BodyLength {  @tag(
-0 )
-    char[
-4294967296 ]
-    options1 , }
-    root packet asx{ repeat string //x
-zchar //	t
-,
-    repeat char string_ `" ++ [28040; 24687; 31867; 22411]%N ++ runes_of_ascii "` ,
-    } options{ rootA = zchar[ 00
-] ;len = ""a\""b"" ; float =7;uint8x= f64 ;// `tick` ""quote"" 'q'
-}root packet
-    stringy{trueish Foo , } packet
-pack{ u64
-// @lengthOf(
-// c
-repeatCount @lengthOf( Header
-    ) ,
-}
-
-")).
-Eval vm_compute in ("<<<M3897>>>" ++ check (runes_of_ascii "// " ++ [128512]%N ++ runes_of_ascii " emoji
-packet u8x {
-    char[] Z9_,
-    @leftPad('0')
-    //x
-    u64 int @lengthOf(A) `crlf
-    line`,
-    repeat u8x `" ++ [28040; 24687; 31867; 22411]%N ++ runes_of_ascii "`,
-    int64 leftPad @lengthOf(T),
-    i8i8 i64_,// " ++ [128512]%N ++ runes_of_ascii " emoji
-    repeat msg_type,
-    @rightPad('\x00')
-    @lengthOf(zchar)
-    matchKey,
-}
-
-MetaData u {
-}
-
-MetaData x_y_z {
-    int16 rootA,
-    char[] o `it's`,
-}
-
-options {
-}")).
-Eval vm_compute in ("<<<M3647>>>" ++ check (runes_of_ascii "options {
-    FixedStringPadFromLeft = true;
-    FixedStringPadChar = ' ';
-}
-packet Reject {
-}
-packet Fill {
-    repeat i16 Tail,
-}
-root packet Trade {
-    float64 Ref,
-    Fill,
-    u8 Note,
-    u16 count @lengthOf(Body),
-    match Note as Body {
-        [98, 101] : Fill,
-        34 : Reject,
-    },
-    u32 x @calculatedFrom(""CR\
-C32""),
-}
-")).
-Eval vm_compute in ("<<<M1110>>>" ++ check (runes_of_ascii "  MetaData	i64_ { // trailing space 
-falsey asx	`u8 x,`  , } MetaData T
-    { }
-root packet msg_type
-{ zchar[ 7	] options1@calculatedFrom(
-    ""a	b"" )
-`// not a comment`
-    , @calculatedFrom( """ ++ [28040; 24687]%N ++ runes_of_ascii """) matchKey @lengthOf(//x
-x_y_z
-), uint64 len
-,
-    @tag(255) u32	A
-// " ++ [128512]%N ++ runes_of_ascii " emoji
-// packet A { u8 x, }
-`` ,
-    // c
-    } // a // b")).
-Eval vm_compute in ("<<<M4231>>>" ++ check (runes_of_ascii "
-packet
-
-Packet
-{
-
-f32a  // @lengthOf(
-
-	pack
-    ,
-
-    @tag(00 )
-
-@tag(	//	t
-7 ) // @lengthOf(
-A
-	@calculatedFrom(
-""\" ++ [233]%N ++ runes_of_ascii """ 
-      // " ++ [27880; 37322]%N ++ runes_of_ascii "
-  // " ++ [128512]%N ++ runes_of_ascii " emoji
-    )
-, crc stringy
-    ,	}  packet Packet
-    {
-    i64
-	u8x
-    `u8 x,`,  // " ++ [27880; 37322]%N ++ runes_of_ascii "
-      @leftPad(
-'\x00')@lengthOf(
-
-MetaDataX
-) @lengthOf(As
-) chars  o`" ++ [28040; 24687; 31867; 22411]%N ++ runes_of_ascii "`
-,	}
-
-")).
-Eval vm_compute in ("<<<M1186>>>" ++ check (runes_of_ascii "root
-packet u128 {match zchar
-as
-    msg_type // `tick` ""quote"" 'q'
-{ 7
+Eval vm_compute in ("<<<M1044>>>" ++ check (runes_of_ascii "
+options	{ x // c
+= ""{,}"" ; i8i8 = true
+;matchKey	=
+""1"" ;} MetaData rootA { string
+    packetx
     //	t
-    :	lengthOf ,0123456789:MetaDataX
-""{,}""  :  o
-    ,  255
-// trailing space 
-//
-://
-metadata ,
-[ 1 ] :	A , [
-007 , ""a\\"" , 0123456789
-,	255 ,
-""\" ++ [233]%N ++ runes_of_ascii """,  007 ] :
+    `it's` // c
+,
 // `tick` ""quote"" 'q'
 // packet A { u8 x, }
-falsey,
+char[4294967296	] roots
+,
+    zchar As ,
+    Z9_	asx `" ++ [28040; 24687; 31867; 22411]%N ++ runes_of_ascii "`,char[]Pad , } packet As{@leftPad //
+('0' ) match falsey as pack{4294967296:leftPad ,	10 : // packet A { u8 x, }
+zchar,""it's"" :
+u8x, """" : string_} ,
+    i8 Header , u16
+lengthOf@lengthOf( leftPad ) , }packet int { @tag(3 )  tag ``, }  MetaData
+    // " ++ [27880; 37322]%N ++ runes_of_ascii "
+    a1 {repeatCount	asx , }")).
+Eval vm_compute in ("<<<M1163>>>" ++ check (runes_of_ascii "
+root  packet chars
+{ }
+    packet rootA{ u128
+,match Header as
+    _x	{ 1// a // b
+:
+Foo ,
+// c
+/// triple
+[
+""" ++ [28040; 24687]%N ++ runes_of_ascii """ , 007 ]
+: float ""x y""	: repeatCount , ""\" ++ [233]%N ++ runes_of_ascii """ :
+body 1
+: float , } , i8
+    // packet A { u8 x, }
+    u8x @calculatedFrom( """ ++ [28040; 24687]%N ++ runes_of_ascii """
+) // " ++ [128512]%N ++ runes_of_ascii " emoji
+, string
+metadata ,	@lengthOf( metadata )	repeat
+    /// triple
+    zchar[
+    255
+    ] Foo ,
+// `tick` ""quote"" 'q'
+//x
+@tag( 007 )	Foo @calculatedFrom(	""// no comment""
+) `a\` , leftPad@calculatedFrom(
+""it's""
+    ) `u8 x,` , }
+")).
+Eval vm_compute in ("<<<M3207>>>" ++ check (runes_of_ascii "// top
+options
+    // c0
+{ charz // c2
+= // c3a
+  // c3b
+f64 // c4a
+  // c4b
+; // c5a
+  // c5b
+metadata = // c7
+7 // c8a
+  // c8b
+; // c9a
+  // c9b
+} // c10
+options
+    // c11
+{
+    // c12
+u128 // c13
+=
+    // c14
+10 // c15
+options1 // c16
+= // c17
+true
+    // c18
+; zchar // c20
+=
+    // c21
+uint16
+    // c22
+; lengthOf
+    // c24
+=
+    // c25
+true
+    // c26
+;
+    // c27
+} // c28a
+  // c28b
+options // c29
+{
+    // c30
+len = // c32
+1
+    // c33
 }
-    , } // a // b")).
-Eval vm_compute in ("<<<M2046>>>" ++ check (runes_of_ascii "MetaData
+    // c34
+")).
+Eval vm_compute in ("<<<M4487>>>" ++ check (runes_of_ascii "MetaData len {
+}
+
+packet BodyLength {
+    char[42] A @calculatedFrom(""// no comment"") `crlf
+    line`,
+    match Header as calculatedFrom {
+        /// triple
+        // packet A { u8 x, }
+        ""`tick`"" : o,
+        // packet A { u8 x, }
+        // c
+    },
+    repeat packetx,
+}
+
+packet u {
+}
+
+packet x_y_z {
+    @lengthOf(repeatCount)
+    // trailing space 
+    char[] charz @calculatedFrom(""it's"") `doc`,
+}
+
+packet calculatedFrom {
+}")).
+Eval vm_compute in ("<<<M395>>>" ++ check (runes_of_ascii "packet trueish
+    // " ++ [128512]%N ++ runes_of_ascii " emoji
+    { BodyLength
+, // packet A { u8 x, }
+repeat
+    //
+    len , @tag(
+3 ) zchar[ 0 ] u128 // packet A { u8 x, }
+,@calculatedFrom( ""a\""b""
+    )char[] u128 `u8 x,` , }
+MetaData BodyLength {char[
+1]
+A	,
+/// triple
+// `tick` ""quote"" 'q'
+rootA	int ,
+// trailing space 
+// packet A { u8 x, }
+string
+    //x
+    len ,
+char[] o// @lengthOf(
+, // `tick` ""quote"" 'q'
+uint8x u128 `` , } // @lengthOf(")).
+Eval vm_compute in ("<<<M584>>>" ++ check (runes_of_ascii "options { len
+=""x y""; } packet // @lengthOf(
+repeatCount { zchar[ // a // b
+7]
+f32a ,
+} packet
+    asx { len @calculatedFrom( ""a\\"" ) `line1
+line2`
+// @lengthOf(
+// " ++ [27880; 37322]%N ++ runes_of_ascii "
+, @lengthOf(T
+    ) u8x`a\` ,@tag(3 )
+    char Pad `
+` ,
+    char[
+    4294967296 //	t
+]
+    metadata
+    @calculatedFrom( ""CRC32"") ,	@lengthOf( Header ) u64
+    uint8x// `tick` ""quote"" 'q'
+@calculatedFrom(""x y""
+    ) , }
+// " ++ [128512]%N ++ runes_of_ascii " emoji
+")).
+Eval vm_compute in ("<<<M4575>>>" ++ check (runes_of_ascii "/// triple
+MetaData x {
+    uint64 u `doc`,
+}
+
+root packet i8i8 {
+    uint32 zchar @lengthOf(chars),
+    string rootA @calculatedFrom(""\n""),
+}
+
+packet MetaDataX {
+    i32 A @lengthOf(string_) ``,
+    @calculatedFrom(""a\\"")
+    @lengthOf(roots)
+    msg_type asx `crlf
+    line`,
+    @lengthOf(metadata)
+    @calculatedFrom(""" ++ [28040; 24687]%N ++ runes_of_ascii """)
+    @leftPad()
+    repeat string o `// not a comment`,
+}//x")).
+Eval vm_compute in ("<<<M99>>>" ++ check (runes_of_ascii "packet i8i8{ matchKey //x
+, match trueish
+//	t
+// c
+as roots
+{  [ 00 ] : int , 255 :  u128  ,	3 : matchKey , [ 65535 ]
+    :
+// c
+//
+trueish , //	t
+}
+    , } packet packetx{ }
+packet
+u8x {@tag(
+3
+    )
+    match x_y_z as
+leftPad
+{ [ 7 ]:  u8x }
+    , @tag(  42
+) int64 lengthOf ,@tag(
+255 )	zchar[ 7 ]	o , A ,@tag( 0
+    // @lengthOf(
+    ) repeat lengthOf u8x, }
+")).
+Eval vm_compute in ("<<<M691>>>" ++ check (runes_of_ascii "//x
+packet string_ { @calculatedFrom(
+""// no comment"" ) @calculatedFrom( ""abc"" ) @calculatedFrom(	""a	b"" )
+match u8x as u8x { 7 :x
+, [
+    ""packet""]	: chars ,} , } MetaData i8i8 { char[] a1 , crc// trailing space 
+a1 , // trailing space 
+char[
+1 ] // @lengthOf(
+matchKey , // `tick` ""quote"" 'q'
+}
+    options {Logon
+    = ""{,}""	; }// " ++ [27880; 37322]%N ++ runes_of_ascii "
+options {  }
+
+")).
+Eval vm_compute in ("<<<M791>>>" ++ check (runes_of_ascii "root
+    packet
+falsey{  repeat i64_ , //	t
+@tag( 4294967296 ) @leftPad (' ' )
+@lengthOf( _x )x leftPad `a\`,
+/// triple
+// " ++ [27880; 37322]%N ++ runes_of_ascii "
+@calculatedFrom( """"	)  @lengthOf( i8i8 ) @tag( 10
+    ) stringy { u8x { int8 i8i8 @lengthOf( string_ ) `doc`
+, string asx, }
+// " ++ [128512]%N ++ runes_of_ascii " emoji
+/// triple
+,} ,
+    @tag( 007
+)string metadata  , } // packet A { u8 x, }")).
+Eval vm_compute in ("<<<M1918>>>" ++ check (runes_of_ascii "MetaData
     u { }  options {
 // c
 // @lengthOf(
-float = int8 ;rootA =false ; As =	int16 // `tick` ""quote"" 'q'
-repeatCount
-    // trailing space 
-    =
-    int16
-; u8x =
-    //	t
-    '\x00' ; } options	{
-    repeatCount
-= 0
-u128
-    //
-    = false ; i64_
-// trailing space 
-// `tick` ""quote"" 'q'
-= '0' ; ; //	t
-}
-")).
-Eval vm_compute in ("<<<M1882>>>" ++ check (runes_of_ascii "MetaData
-    u { }  options float
-// c
-// @lengthOf(
-{ = int8 ;rootA =false ; As =	int16 // `tick` ""quote"" 'q'
+float = int8 ;rootA =@calculatedFrom( ; As =	int16 // `tick` ""quote"" 'q'
 repeatCount
     // trailing space 
     =
@@ -1543,7 +1576,7 @@ u128
 = '0' ; //	t
 }
 ")).
-Eval vm_compute in ("<<<M2032>>>" ++ check (runes_of_ascii "MetaData
+Eval vm_compute in ("<<<M2031>>>" ++ check (runes_of_ascii "MetaData
     u { }  options {
 // c
 // @lengthOf(
@@ -1559,209 +1592,209 @@ repeatCount
 = 0
 u128
     //
-    = false ; =
+    = false ; i64_ i64_
 // trailing space 
 // `tick` ""quote"" 'q'
-i64_ '0' ; //	t
+= '0' ; //	t
 }
 ")).
-Eval vm_compute in ("<<<M510>>>" ++ check (runes_of_ascii "// trailing space 
-root
-packet x_y_z //	t
-{ @leftPad (
-    )
-repeat
-rootA  {BodyLength body`
-` ,
-u8 leftPad
-@calculatedFrom( ""1""	)``,
-char[007 ] i64_ , } ,u32
-// trailing space 
+Eval vm_compute in ("<<<M1966>>>" ++ check (runes_of_ascii "MetaData
+    u { }  options {
 // c
-zchar `line1
-line2`, char[ 10
-    // packet A { u8 x, }
-    ]
-    //	t
-    i8i8 @calculatedFrom( """ ++ [233]%N ++ runes_of_ascii "t" ++ [233]%N ++ runes_of_ascii """ ) , }
-packet a1
-    {}
-")).
-Eval vm_compute in ("<<<M4081>>>" ++ check (runes_of_ascii "MetaData T {
-    Foo lengthOf,
-    string packetx `// not a comment`,
-    zchar[0] metadata `crlf
-        line`,
-    x string_ `line1
-        line2`,
-}
-
-packet repeatCount {
-    char[255] A @calculatedFrom(""a\\""),
-    float32 BodyLength @lengthOf(_x) `doc`,
-    char[] trueish @calculatedFrom(""packet""),
-}")).
-Eval vm_compute in ("<<<M4242>>>" ++ check (runes_of_ascii "packet x {
-    lengthOf rootA,
-    @rightPad('0')
-    i8 asx @lengthOf(calculatedFrom),
-    @lengthOf(Pad)
-    repeat int16 trueish ``,
-    @calculatedFrom(""" ++ [128512]%N ++ runes_of_ascii """)
-    @tag(0)
-    @lengthOf(matchKey)
-    string MetaDataX `doc`,
-    i16 options1 @lengthOf(u8x) `a\`,
-    u128 u128 `line1
-    line2`,
-}")).
-Eval vm_compute in ("<<<M4082>>>" ++ check (runes_of_ascii "packet zchar {
-    @rightPad()
-    uint8 a1 `line1
-        line2`,
-    @calculatedFrom(""x y"")
-    match pack as matchKey {
-        /// triple
-        """ ++ [28040; 24687]%N ++ runes_of_ascii """ : u128,
-        3 : i64_,
-        ""a\""b"" : As,
-    },
-    // " ++ [27880; 37322]%N ++ runes_of_ascii "
-    // @lengthOf(
-    u8 Packet @calculatedFrom(""// no comment""),
-}")).
-Eval vm_compute in ("<<<M4025>>>" ++ check (runes_of_ascii "packet packetx {
-    @tag(7)
-    @calculatedFrom(""`tick`"")
-    @calculatedFrom(""a\\"")
-    char[] int,
-    @rightPad(' ')
-    string tag `tab	here`,
-    @lengthOf(asx)
-    u8 repeatCount,
-    @calculatedFrom(""// no comment"")
-    //x
+// @lengthOf(
+float = int8 ;rootA =false ; As =	int16 // `tick` ""quote"" 'q'
+repeatCount
     // trailing space 
-    zchar[1] a1,
-}")).
-Eval vm_compute in ("<<<M228>>>" ++ check (runes_of_ascii "
-packet
-Z9_  { } packet T
-{
-repeat
-    charz {match float as // " ++ [128512]%N ++ runes_of_ascii " emoji
-stringy {00 : f32a [ 00
-    //x
-    , 00 ,""a\\""
-// packet A { u8 x, }
-// a // b
-, 0 ,	7, 0 ] : As , } ,//	t
-uint32 asx ,
-//
-/// triple
-repeat u8x {
-    repeat
-//x
-//
-u8 string_ ,
-} , } , }
-")).
-Eval vm_compute in ("<<<M1500>>>" ++ check (runes_of_ascii "packet
-//	t
-// trailing space 
-_x uint64
-// packet A { u8 x, }
-// c
-char[
-3
-    ] u8x @lengthOf(
-u8x ) , @calculatedFrom(""" ++ [128512]%N ++ runes_of_ascii """ // @lengthOf(
-)
-i16	Foo
-@lengthOf(	string_
-    )`doc`	, repeat	i64 metadata , @lengthOf( string_
-) i8 // c
-u  `line1
-line2`	,
-}
-")).
-Eval vm_compute in ("<<<M1588>>>" ++ check (runes_of_ascii "packet
-//	t
-// trailing space 
-_x {
-// packet A { u8 x, }
-// c
-char[
-3
-    ] u8x @lengthOf(
-u8x ) , @calculatedFrom(""" ++ [128512]%N ++ runes_of_ascii """ // @lengthOf(
-)
-i16	Foo
-@lengthOf(	string_
-    )`doc`	, , repeat	i64 metadata , @lengthOf( string_
-) i8 // c
-u  `line1
-line2`	,
-}
-")).
-Eval vm_compute in ("<<<M1490>>>" ++ check (runes_of_ascii "_x
-//	t
-// trailing space 
-packet {
-// packet A { u8 x, }
-// c
-char[
-3
-    ] u8x @lengthOf(
-u8x ) , @calculatedFrom(""" ++ [128512]%N ++ runes_of_ascii """ // @lengthOf(
-)
-i16	Foo
-@lengthOf(	string_
-    )`doc`	, repeat	i64 metadata , @lengthOf( string_
-) i8 // c
-u  `line1
-line2`	,
-}
-")).
-Eval vm_compute in ("<<<M1634>>>" ++ check (runes_of_ascii "packet
-//	t
-// trailing space 
-_x {
-// packet A { u8 x, }
-// c
-char[
-3
-    ] u8x @lengthOf(
-u8x ) , @calculatedFrom(""" ++ [128512]%N ++ runes_of_ascii """ // @lengthOf(
-)
-i16	Foo
-@lengthOf(	string_
-    )`doc`	, repeat	i64 metadata , @lengthOf( string_
-) i8 // c
-`line1
-line2`  u	,
-}
-")).
-Eval vm_compute in ("<<<M970>>>" ++ check (runes_of_ascii "root
-packet _x { // `tick` ""quote"" 'q'
-@tag( // " ++ [27880; 37322]%N ++ runes_of_ascii "
-1) zchar @lengthOf( len
-// trailing space 
-//	t
-), } packet metadata {
-uint8x{ a1
-Foo ,
-    }
-    , }options {rootA =""`tick`"" ; Pad // c
-=
-    // a // b
-    65535} packet
+    =
+    int16
+; u8x = =
     //	t
-    charz { }
-")).
-Eval vm_compute in ("<<<M1640>>>" ++ check (runes_of_ascii "packet
-//	t
+    '\x00' ; } options	{
+    repeatCount
+= 0
+u128
+    //
+    = false ; i64_
 // trailing space 
+// `tick` ""quote"" 'q'
+= '0' ; //	t
+}
+")).
+Eval vm_compute in ("<<<M2067>>>" ++ check (runes_of_ascii "MetaData
+    u { }  options {
+// c
+// @lengthOf(
+float = int8 ;rootA =false ; As =	int16 // `tick` ""quote"" 'q'
+repeatCount
+    // trailing space 
+    =
+    int16
+; u8x =
+    //	t
+    '\x00' ; } options	{
+    `repeatCount
+= 0
+u128
+    //
+    = false ; i64_
+// trailing space 
+// `tick` ""quote"" 'q'
+= '0' ; //	t
+}
+")).
+Eval vm_compute in ("<<<M1977>>>" ++ check (runes_of_ascii "MetaData
+    u { }  options {
+// c
+// @lengthOf(
+float = int8 ;rootA =false ; As =	int16 // `tick` ""quote"" 'q'
+repeatCount
+    // trailing space 
+    =
+    int16
+; u8x =
+    //	t
+    '\x00' } ; options	{
+    repeatCount
+= 0
+u128
+    //
+    = false ; i64_
+// trailing space 
+// `tick` ""quote"" 'q'
+= '0' ; //	t
+}
+")).
+Eval vm_compute in ("<<<M1955>>>" ++ check (runes_of_ascii "MetaData
+    u { }  options {
+// c
+// @lengthOf(
+float = int8 ;rootA =false ; As =	int16 // `tick` ""quote"" 'q'
+repeatCount
+    // trailing space 
+    =
+    int16
+ u8x =
+    //	t
+    '\x00' ; } options	{
+    repeatCount
+= 0
+u128
+    //
+    = false ; i64_
+// trailing space 
+// `tick` ""quote"" 'q'
+= '0' ; //	t
+}
+")).
+Eval vm_compute in ("<<<M1905>>>" ++ check (runes_of_ascii "MetaData
+    u { }  options {
+// c
+// @lengthOf(
+float = int8 ; =false ; As =	int16 // `tick` ""quote"" 'q'
+repeatCount
+    // trailing space 
+    =
+    int16
+; u8x =
+    //	t
+    '\x00' ; } options	{
+    repeatCount
+= 0
+u128
+    //
+    = false ; i64_
+// trailing space 
+// `tick` ""quote"" 'q'
+= '0' ; //	t
+}
+")).
+Eval vm_compute in ("<<<M4>>>" ++ check (runes_of_ascii "root packet pack  { match Pad as// a // b
+f32a
+    {	[
+/// triple
+//	t
+"""" ]: leftPad
+, [""" ++ [233]%N ++ runes_of_ascii "t" ++ [233]%N ++ runes_of_ascii """,007 ] : //	t
+f32a //x
+, 65535 :  body
+    ,
+    // @lengthOf(
+    10:u128,42	: // trailing space 
+pack, } ,}options{// " ++ [27880; 37322]%N ++ runes_of_ascii "
+o=
+    // c
+    f64 ; x_y_z //
+= /// triple
+u32 len =
+    42;
+falsey
+    = true	;}")).
+Eval vm_compute in ("<<<M4087>>>" ++ check (runes_of_ascii "  root	packet	rootA
+{
+
+} 
+root
+
+packet
+
+// a // b
+  	// trailing space 
+	_x // " ++ [27880; 37322]%N ++ runes_of_ascii "
+  { i64_
+	,  // a // b
+    	} MetaData options1
+
+    { 	 // `tick` ""quote"" 'q'
+		a1  float `crlf
+line` ,
+
+    u8x
+
+falsey  // " ++ [128512]%N ++ runes_of_ascii " emoji
+`" ++ [233]%N ++ runes_of_ascii "`
+,	f32a MetaDataX , 
+int64 u8x  ,
+
+    }packet
+	f32a {
+
+    }
+")).
+Eval vm_compute in ("<<<M61>>>" ++ check (runes_of_ascii "options
+{  chars =
+    /// triple
+    char; o
+    /// triple
+    = true u128 =
+    ""x y"" ;} packet	chars
+    { @calculatedFrom( ""\n"" )repeat f64 packetx  ,  @tag(4294967296 ) float32 Header
+, zchar[
+007
+]float `// not a comment`
+    ,
+    }
+options  {
+stringy = zchar[ 7 ] ;}")).
+Eval vm_compute in ("<<<M39>>>" ++ check (runes_of_ascii "packet As
+{//
+@lengthOf(trueish ) uint8
+    repeatCount	,
+} options// c
+{As =	""1""matchKey
+=""x y"" ;
+Packet = ' '  }MetaData repeatCount { string BodyLength `{ , }` , char[
+    0123456789 ]//	t
+trueish
+    ,
+uint16 A, u32 falsey `two words`
+, } packet
+float{// c
+}
+
+")).
+Eval vm_compute in ("<<<M1660>>>" ++ check (runes_of_ascii "packet
+//	t
+// trailing spa@lengthOfce 
 _x {
 // packet A { u8 x, }
 // c
@@ -1774,10 +1807,11 @@ i16	Foo
 @lengthOf(	string_
     )`doc`	, repeat	i64 metadata , @lengthOf( string_
 ) i8 // c
-u  @tag(	,
+u  `line1
+line2`	,
 }
 ")).
-Eval vm_compute in ("<<<M1542>>>" ++ check (runes_of_ascii "packet
+Eval vm_compute in ("<<<M1598>>>" ++ check (runes_of_ascii "packet
 //	t
 // trailing space 
 _x {
@@ -1786,7 +1820,26 @@ _x {
 char[
 3
     ] u8x @lengthOf(
-u8x ) , """ ++ [128512]%N ++ runes_of_ascii """ // @lengthOf(
+u8x ) , @calculatedFrom(""" ++ [128512]%N ++ runes_of_ascii """ // @lengthOf(
+)
+i16	Foo
+@lengthOf(	string_
+    )`doc`	, repeat	i64 i64 metadata , @lengthOf( string_
+) i8 // c
+u  `line1
+line2`	,
+}
+")).
+Eval vm_compute in ("<<<M1669>>>" ++ check (runes_of_ascii "packet
+//	t
+// trailing space 
+_x {
+// packet A { u8 x, }
+// c
+char[
+3
+    ] na" ++ [239]%N ++ runes_of_ascii "ve @lengthOf(
+u8x ) , @calculatedFrom(""" ++ [128512]%N ++ runes_of_ascii """ // @lengthOf(
 )
 i16	Foo
 @lengthOf(	string_
@@ -1796,68 +1849,157 @@ u  `line1
 line2`	,
 }
 ")).
-Eval vm_compute in ("<<<M4190>>>" ++ check (runes_of_ascii "packet crc {
-    @calculatedFrom("""")
-    int8 len @lengthOf(lengthOf),
-    @leftPad('\x00')
-    _x @calculatedFrom(""" ++ [28040; 24687]%N ++ runes_of_ascii """),
-    string leftPad @lengthOf(packetx) `say ""hi""`,// packet A { u8 x, }
-}
-
-options {
-    u128 = 65535;
-}")).
-Eval vm_compute in ("<<<M100>>>" ++ check (runes_of_ascii "
-options{ calculatedFrom = false ; } packet i64_
-{
-    body,
+Eval vm_compute in ("<<<M1539>>>" ++ check (runes_of_ascii "packet
 //	t
+// trailing space 
+_x {
+// packet A { u8 x, }
+// c
+char[
+3
+    ] u8x @lengthOf(
+u8x ) @calculatedFrom( ,""" ++ [128512]%N ++ runes_of_ascii """ // @lengthOf(
+)
+i16	Foo
+@lengthOf(	string_
+    )`doc`	, repeat	i64 metadata , @lengthOf( string_
+) i8 // c
+u  `line1
+line2`	,
+}
+")).
+Eval vm_compute in ("<<<M1512>>>" ++ check (runes_of_ascii "packet
+//	t
+// trailing space 
+_x {
+// packet A { u8 x, }
+// c
+char[
+3
+     u8x @lengthOf(
+u8x ) , @calculatedFrom(""" ++ [128512]%N ++ runes_of_ascii """ // @lengthOf(
+)
+i16	Foo
+@lengthOf(	string_
+    )`doc`	, repeat	i64 metadata , @lengthOf( string_
+) i8 // c
+u  `line1
+line2`	,
+}
+")).
+Eval vm_compute in ("<<<M777>>>" ++ check (runes_of_ascii "root packet i8i8
+// `tick` ""quote"" 'q'
+// packet A { u8 x, }
+{ string calculatedFrom @calculatedFrom( ""a	b"" //x
+)
+    , @calculatedFrom(
+""abc"") // " ++ [27880; 37322]%N ++ runes_of_ascii "
+int32 float// " ++ [128512]%N ++ runes_of_ascii " emoji
+,
 //x
-}/// triple
-options { float
-=	true ;// @lengthOf(
-charz =// a // b
-char[65535 ]; u=/// triple
-true ;metadata = ""\" ++ [233]%N ++ runes_of_ascii """  matchKey = '\x00'
-    } // " ++ [27880; 37322]%N)).
-Eval vm_compute in ("<<<M3744>>>" ++ check (runes_of_ascii "  root
-packet
-a1{  u8x 
+// a // b
+@calculatedFrom( ""a\""b"")
+repeat u64 BodyLength
+,
+    }
+")).
+Eval vm_compute in ("<<<M3390>>>" ++ check (runes_of_ascii "// top
+MetaData
+    // c0
+body
+    // c1
 {
-	char[ // trailing space 
-    10 ] 
-tag 
-``
-	, } 	 // " ++ [128512]%N ++ runes_of_ascii " emoji
+    // c2
+i64
+    // c3
+pack
+    // c4
+`it's`
+    // c5
+,
+    // c6
+}
+    // c7
+packet
+    // c8
+stringy
+    // c9
+{
+    // c10
+int16
+    // c11
+calculatedFrom
+    // c12
+,
+    // c13
+}
+    // c14
+")).
+Eval vm_compute in ("<<<M4473>>>" ++ check (runes_of_ascii "root packet roots {
+}// `tick` ""quote"" 'q'
 
-,	}
-packet	packetx  { 
-string
-	crc  @calculatedFrom( ""abc""	) 
-, @lengthOf(  Packet )
-repeat u32 rootA
-
-, // @lengthOf(
-	} ")).
-Eval vm_compute in ("<<<M3480>>>" ++ check (runes_of_ascii "// top
-packet // c0
-chars // c1
-{ // c2
-} // c3
-packet // c4
-MetaDataX // c5
-{ // c6
-@tag( // c7
-42 // c8
-) // c9
-i16 // c10
-string_ // c11
-, // c12
-repeat // c13
-x // c14
-`say ""hi""` // c15
-, // c16
-} // c17
+MetaData As {
+    string u `{ , }`,
+    zchar[3] x_y_z,
+    i32 roots,
+    u16 rootA `line1
+    line2`,
+    // `tick` ""quote"" 'q'
+    // a // b
+    i32 matchKey `doc`,
+    u _x `{ , }`,
+}")).
+Eval vm_compute in ("<<<M4479>>>" ++ check (runes_of_ascii "packet _x {
+    // packet A { u8 x, }
+    // c
+    char[3] u8x @lengthOf(u8x),
+    @calculatedFrom(""" ++ [128512]%N ++ runes_of_ascii """)
+    i16 Foo @lengthOf(string_) `doc`,
+    repeat i64 metadata,
+    @lengthOf(string_)
+    i8 u `line1
+        line2`,
+}")).
+Eval vm_compute in ("<<<M267>>>" ++ check (runes_of_ascii "root packet
+i8i8
+    { _x@lengthOf(chars
+),
+    char[	7]
+packetx
+    /// triple
+    `say ""hi""`
+,
+    // c
+    }root packet string_ {
+    //
+    repeat// `tick` ""quote"" 'q'
+options1// c
+`u8 x,`	,
+    }
+options {	}")).
+Eval vm_compute in ("<<<M1846>>>" ++ check (runes_of_ascii "options { t@leftpadrueish = ""`tick`"" ; string_= """ ++ [233]%N ++ runes_of_ascii "t" ++ [233]%N ++ runes_of_ascii """
+    // c
+    } root
+    packet body { stringy @calculatedFrom(
+""a	b"" ) `line1
+line2` , }
+packet Logon {
+    @leftPad(
+    ' ' ) //	t
+u16 string_ `u8 x,` ,
+}
+")).
+Eval vm_compute in ("<<<M1852>>>" ++ check (runes_of_ascii "options { trueish = ""`tick`"" ; string_= """ ++ [233]%N ++ runes_of_ascii "t" ++ [233]%N ++ runes_of_ascii "@tag""
+    // c
+    } root
+    packet body { stringy @calculatedFrom(
+""a	b"" ) `line1
+line2` , }
+packet Logon {
+    @leftPad(
+    ' ' ) //	t
+u16 string_ `u8 x,` ,
+}
 ")).
 Eval vm_compute in ("<<<M580>>>" ++ check (runes_of_ascii "options{float
     =
@@ -1882,10 +2024,10 @@ packet Logon {
 u16 string_ `u8 x,` ,
 }
 ")).
-Eval vm_compute in ("<<<M1736>>>" ++ check (runes_of_ascii "options { trueish = ""`tick`"" ; string_= """ ++ [233]%N ++ runes_of_ascii "t" ++ [233]%N ++ runes_of_ascii """
+Eval vm_compute in ("<<<M1716>>>" ++ check (runes_of_ascii "options { trueish = ""`tick`"" ; string_= """ ++ [233]%N ++ runes_of_ascii "t" ++ [233]%N ++ runes_of_ascii """
     // c
-    } root
-    packet body  stringy @calculatedFrom(
+     root
+    packet body { stringy @calculatedFrom(
 ""a	b"" ) `line1
 line2` , }
 packet Logon {
@@ -1906,524 +2048,539 @@ packet  {
 u16 string_ `u8 x,` ,
 }
 ")).
-Eval vm_compute in ("<<<M914>>>" ++ check (runes_of_ascii "/// triple
-options {
-    // packet A { u8 x, }
-    Foo = 00 ; } root packet	string_ {u32 falsey	@calculatedFrom( ""x y"" )
-`u8 x,`	,} root packet // `tick` ""quote"" 'q'
-T { } // `tick` ""quote"" 'q'")).
-Eval vm_compute in ("<<<M3811>>>" ++ check (runes_of_ascii "  packet  options1
-    {
-@leftPad
-
-(
-
-    '0' )
-    asx 	 //
-  {
-    MetaDataX
-	,
-u16
-u8x`
-`
-
+Eval vm_compute in ("<<<M3540>>>" ++ check (runes_of_ascii "// top
+root // c0
+packet
+    // c1
+P // c2a
+  // c2b
+{ // c3a
+  // c3b
+hdr { // c5a
+  // c5b
+u8 // c6a
+  // c6b
+a ,
+    // c8
+} // c9a
+  // c9b
+, u8 // c11a
+  // c11b
+x
+    // c12
 ,
-	trueish`a\`
+    // c13
+} ")).
+Eval vm_compute in ("<<<M1325>>>" ++ check (runes_of_ascii "//
+packet x_y_z
+    // `tick` ""quote"" 'q'
+    {
+@calculatedFrom(""x y""  )	@calculatedFrom( ""packet"" ) @calculatedFrom(""CRC32""
+    ) a1 uint8x
+    //
+    `u8 x,`
+// " ++ [128512]%N ++ runes_of_ascii " emoji
+// @lengthOf(
+,}
+")).
+Eval vm_compute in ("<<<M4117>>>" ++ check (runes_of_ascii "packet pack {
+	pack calculatedFrom,  len
+,	u16 T
+	,@lengthOf( trueish
+)  repeat  leftPad,
+@calculatedFrom(
+	""" ++ [233]%N ++ runes_of_ascii "t" ++ [233]%N ++ runes_of_ascii """
 
-    ,
-float32
-rootA
-@calculatedFrom(""a	b""
-	)
+)@rightPad (	'0' 
+)	f64 a1
+    ,repeat trueish
+Header
 
-    ,} // a // b
-	,} ")).
-Eval vm_compute in ("<<<M3971>>>" ++ check (runes_of_ascii "packet A {
-    match k as n {
-        ""x\
-        y"" : B,
-        [1, ""x\
-        y""] : C,
-        [
-            1, 2, 3, 4, 5,
-            ""x\
-            y""
-        ] : D,
-    },
-}")).
-Eval vm_compute in ("<<<M1107>>>" ++ check (runes_of_ascii "MetaData
-// `tick` ""quote"" 'q'
+    , } ")).
+Eval vm_compute in ("<<<M430>>>" ++ check (runes_of_ascii "root packet i8i8 { @tag(
+3) @tag( // " ++ [128512]%N ++ runes_of_ascii " emoji
+42 )repeat zchar[ 0123456789 ]
+    options1 // a // b
+, string	charz
+`say ""hi""` ,
+    }
+MetaData int{
+    uint16 uint8x,
+    }")).
+Eval vm_compute in ("<<<M1969>>>" ++ check (runes_of_ascii "MetaData
+    u { }  options {
+// c
+// @lengthOf(
+float = int8 ;rootA =false ; As =	int16 // `tick` ""quote"" 'q'
+repeatCount
+    // trailing space 
+    =
+    int16
+; u8x")).
+Eval vm_compute in ("<<<M2393>>>" ++ check (runes_of_ascii "// c
+packet x { @lengthOf( metadata ) repeat lengthOf
+,a1{
+trueish	,// c
+repeat//	t
+MetaDataX , } , zchar[
+    4@lengthOf2	] rootA // `tick` ""quote"" 'q'
+,
+    }
+")).
+Eval vm_compute in ("<<<M2408>>>" ++ check (runes_of_ascii "// c
+packet x { @lengthOf( metadata ) repeat lengthOf
+,a1{
+trueish	,// c
+repeat//	t
+MetaDataX , } , zchar[
+    42	] rootA // `tick` ""quote"" 'q'
+,'\x01'
+    }
+")).
+Eval vm_compute in ("<<<M2388>>>" ++ check (runes_of_ascii "// c
+packet x { @lengthOf( metadata ) repeat lengthOf
+,a1{
+trueish	,// c
+repeat//	t
+MetaDataX , } , zchar[
+    42	true rootA // `tick` ""quote"" 'q'
+,
+    }
+")).
+Eval vm_compute in ("<<<M2314>>>" ++ check (runes_of_ascii "// c
+packet x { @lengthOf( metadata ) repeat lengthOf
+,a1 trueish
+{	,// c
+repeat//	t
+MetaDataX , } , zchar[
+    42	] rootA // `tick` ""quote"" 'q'
+,
+    }
+")).
+Eval vm_compute in ("<<<M2330>>>" ++ check (runes_of_ascii "// c
+packet x { @lengthOf( metadata ) repeat lengthOf
+,a1{
+trueish	,// c
+repeat//	t
+, MetaDataX } , zchar[
+    42	] rootA // `tick` ""quote"" 'q'
+,
+    }
+")).
+Eval vm_compute in ("<<<M2375>>>" ++ check (runes_of_ascii "// c
+packet x { @lengthOf( metadata ) repeat lengthOf
+,a1{
+trueish	,// c
+repeat//	t
+MetaDataX ,  , zchar[
+    42	] rootA // `tick` ""quote"" 'q'
+,
+    }
+")).
+Eval vm_compute in ("<<<M2166>>>" ++ check (runes_of_ascii "options{
+_x
+= true
+} options
+{ o	= /// triple
+false
+    ; chars
+= ""\n"" } root packet	{
 /// triple
-matchKey// " ++ [27880; 37322]%N ++ runes_of_ascii "
-{  char[ //x
-255
-] Pad`it's`
-, u8
-x_y_z //
-, i64_ packetx// a // b
-`tab	here` // " ++ [128512]%N ++ runes_of_ascii " emoji
-,trueish
-zchar`it's` , }
-
+// packet A { u8 x, }
+Pad	chars
+    // a // b
+    ,}")).
+Eval vm_compute in ("<<<M3583>>>" ++ check (runes_of_ascii "packet A {
+    u8 a,
+}
+packet B {
+    u16 b,
+}
+root packet P {
+    u8 K,
+    match K as M {
+        [1, 2] : A,
+        3 : B,
+        7 : A,
+    },
+}
 ")).
-Eval vm_compute in ("<<<M156>>>" ++ check (runes_of_ascii "packet asx {
+Eval vm_compute in ("<<<M2317>>>" ++ check (runes_of_ascii "// c
+packet x { @lengthOf( metadata ) repeat lengthOf
+,a1{
+trueish	,// c
+//	t
+MetaDataX , } , zchar[
+    42	] rootA // `tick` ""quote"" 'q'
+,
     }
-    // packet A { u8 x, }
-    options
-    { options1
-= float64 leftPad
-=true ; MetaDataX =char[00] ; roots=false }// " ++ [128512]%N ++ runes_of_ascii " emoji
-packet string_{
-    }
-
 ")).
-Eval vm_compute in ("<<<M1800>>>" ++ check (runes_of_ascii "options { trueish = ""`tick`"" ; string_= """ ++ [233]%N ++ runes_of_ascii "t" ++ [233]%N ++ runes_of_ascii """
+Eval vm_compute in ("<<<M2057>>>" ++ check (runes_of_ascii "MetaData
+    u { }  options {
+// c
+// @lengthOf(
+float = int8 ;rootA =false ; As =	int16 // `tick` ""quote"" 'q'
+repeatCount
+    // trailing space")).
+Eval vm_compute in ("<<<M198>>>" ++ check (runes_of_ascii "MetaData
+    //x
+    body
+    // a // b
+    { BodyLength stringy ,
+    //	t
+    zchar[ 42 ] o
+    ,
+i64_ lengthOf `{ , }` ,u8 MetaDataX  , }")).
+Eval vm_compute in ("<<<M104>>>" ++ check (runes_of_ascii "/// triple
+options  { Header = 65535
+    ; calculatedFrom =
+""x y"" trueish = true i8i8 = false metadata // trailing space 
+=	""" ++ [28040; 24687]%N ++ runes_of_ascii """ ;
+}
+")).
+Eval vm_compute in ("<<<M3761>>>" ++ check (runes_of_ascii "
+
+  MetaData  float  { float64	charz `
+`
+,
+}
+
+    root 
+        // c
+packet
+    chars
+
+    {
+@rightPad (
+    '0'
+)	Foo , } ")).
+Eval vm_compute in ("<<<M1275>>>" ++ check (runes_of_ascii "packet Z9_
+{	}packet f32a	{
+repeat metadata
+//	t
+// " ++ [27880; 37322]%N ++ runes_of_ascii "
+`
+` , charz // @lengthOf(
+@calculatedFrom( ""a\\"" ) , i64
+charz , }
+")).
+Eval vm_compute in ("<<<M807>>>" ++ check (runes_of_ascii "options { }
+options {
+pack =false; Z9_//
+= false ;} packet Pad { }
+packet u8x
+{ repeat// " ++ [128512]%N ++ runes_of_ascii " emoji
+matchKey packetx
+, } //x")).
+Eval vm_compute in ("<<<M3324>>>" ++ check (runes_of_ascii "root packet matchKey { zchar[ 3 ] // c
+pack @calculatedFrom( ""a	b"" ) `doc` , } options { } MetaData A { int8 msg_type , }")).
+Eval vm_compute in ("<<<M3356>>>" ++ check (runes_of_ascii "root packet matchKey { zchar[ 3 ] pack @calculatedFrom( ""a	b"" ) `doc` , } options { } MetaData A { int8 msg_type , // c
+}")).
+Eval vm_compute in ("<<<M1476>>>" ++ check (runes_of_ascii "
+packet
+    falsey { Header@calculatedFrom(""packet""  ) , char[
+    0123456789 ] packetx
+    , } // `tick` ""quote"" 'q'#")).
+Eval vm_compute in ("<<<M1454>>>" ++ check (runes_of_ascii "
+packet
+    falsey { Header@calculatedFrom(""packet""  ) , char[
+    0123456789 ] ,
+    packetx } // `tick` ""quote"" 'q'")).
+Eval vm_compute in ("<<<M1760>>>" ++ check (runes_of_ascii "options { trueish = ""`tick`"" ; string_= """ ++ [233]%N ++ runes_of_ascii "t" ++ [233]%N ++ runes_of_ascii """
     // c
     } root
     packet body { stringy @calculatedFrom(
-""a	b"" ) `line1
-line2` , }
-packet Logon {
-    @leftPad")).
-Eval vm_compute in ("<<<M4296>>>" ++ check (runes_of_ascii "packet rootA {
-    asx,
-    @tag(10)
-    @tag(1)
-    @calculatedFrom(""1"")
-    /// triple
-    charz @calculatedFrom(""a\\"") `line1
-        line2`,// @lengthOf(
-}")).
-Eval vm_compute in ("<<<M4448>>>" ++ check (runes_of_ascii "//
-MetaData u {
-    uint64 string_ `doc`,
-    A metadata `u8 x,`,
-    string Logon `u8 x,`,
-    float64 float,
-    char[] T `crlf
-    line`,
-    u8 Logon,
-}")).
-Eval vm_compute in ("<<<M2390>>>" ++ check (runes_of_ascii "// c
-packet x i8 @lengthOf( metadata ) repeat lengthOf
-,a1{
-trueish	,// c
-repeat//	t
-MetaDataX , } , zchar[
-    42	] rootA // `tick` ""quote"" 'q'
-,
-    }
-")).
-Eval vm_compute in ("<<<M2382>>>" ++ check (runes_of_ascii "// c
-packet { x @lengthOf( metadata ) repeat lengthOf
-,a1{
-trueish	,// c
-repeat//	t
-MetaDataX , } , zchar[
-    42	] rootA // `tick` ""quote"" 'q'
-,
-    }
-")).
-Eval vm_compute in ("<<<M2416>>>" ++ check (runes_of_ascii "// c
-packet x { @lengthOf( metadata ) repeat lengthOf
-,a1
-trueish	,// c
-repeat//	t
-MetaDataX , } , zchar[
-    42	] rootA // `tick` ""quote"" 'q'
-,
-    }
-")).
-Eval vm_compute in ("<<<M2359>>>" ++ check (runes_of_ascii "// c
-packet x { @lengthOf( metadata ) repeat lengthOf
-,a1{
-trueish	,// c
-repeat//	t
-MetaDataX , } , zchar[
-    42	] u64 // `tick` ""quote"" 'q'
-,
-    }
-")).
-Eval vm_compute in ("<<<M225>>>" ++ check (runes_of_ascii "
-MetaData options1 { zchar[
-    007 ] // `tick` ""quote"" 'q'
-zchar	`a\` , uint32 As ,
-    i8i8
-Foo ,
-// packet A { u8 x, }
-//x
-}
-    packet falsey { }")).
-Eval vm_compute in ("<<<M1343>>>" ++ check (runes_of_ascii "
-options
-{
-asx
-    =""CRC32"" ; MetaDataX// c
-= char[ 4294967296	]
-    ;
-// " ++ [27880; 37322]%N ++ runes_of_ascii "
-// trailing space 
-_x = '0'; trueish=
-""a	b"" ;	} // packet A { u8 x, }")).
-Eval vm_compute in ("<<<M1271>>>" ++ check (runes_of_ascii "packet options1 {
-@leftPad
-( '0' )
-asx //
-{ MetaDataX ,u16  u8x `
+""a	b""")).
+Eval vm_compute in ("<<<M3724>>>" ++ check (runes_of_ascii "
+MetaData
+
+float {
+	float64  charz 
 `
-, trueish `a\` ,float32 rootA @calculatedFrom( ""a	b"" ) ,}// a // b
-,
-    }")).
-Eval vm_compute in ("<<<M1566>>>" ++ check (runes_of_ascii "packet
-//	t
-// trailing space 
-_x {
-// packet A { u8 x, }
-// c
-char[
-3
-    ] u8x @lengthOf(
-u8x ) , @calculatedFrom(""" ++ [128512]%N ++ runes_of_ascii """ // @lengthOf(
-)
-i16")).
-Eval vm_compute in ("<<<M694>>>" ++ check (runes_of_ascii "MetaData Logon
-    // a // b
-    { } packet x_y_z {} packet repeatCount
-{ lengthOf @calculatedFrom(
-""" ++ [28040; 24687]%N ++ runes_of_ascii """
-)
-    `// not a comment` ,}
-")).
-Eval vm_compute in ("<<<M4181>>>" ++ check (runes_of_ascii "MetaData  float
-
-    {
-float64  charz `
-`  , }
-
-    root
-
-    packet chars  { 
-// c
-  @rightPad	(
-'0'
-)
-
-    Foo	,
-}
-")).
-Eval vm_compute in ("<<<M643>>>" ++ check (runes_of_ascii "
-packet metadata {
-// trailing space 
-// trailing space 
-@calculatedFrom(// `tick` ""quote"" 'q'
-""CRC32"" )
-stringy As ,
-    }
-")).
-Eval vm_compute in ("<<<M3358>>>" ++ check (runes_of_ascii "root packet matchKey { zchar[ 3 ] pack @calculatedFrom( ""a	b"" ) `doc` , } options { } MetaData A { int8 msg_type , } // c
-")).
-Eval vm_compute in ("<<<M3330>>>" ++ check (runes_of_ascii "root packet matchKey { zchar[ 3 ] pack @calculatedFrom( ""a	b"" // c
-) `doc` , } options { } MetaData A { int8 msg_type , }")).
-Eval vm_compute in ("<<<M649>>>" ++ check (runes_of_ascii "root packet
-string_{
-@calculatedFrom( ""`tick`"" )
-    uint8 stringy `a\` //
-, int16 Packet @calculatedFrom( ""it's"" ), }")).
-Eval vm_compute in ("<<<M3848>>>" ++ check (runes_of_ascii "// @lengthOf(
-
-	options {
-
-u128
-=' ' chars
-=
-char 
-;
-float	=  ""// no comment""
-
-repeatCount  
-      //x
-
-=false
-
-;
-}
-")).
-Eval vm_compute in ("<<<M1427>>>" ++ check (runes_of_ascii "
+` ,
+	// c
+	}
+	root 
 packet
-    falsey { Header@calculatedFrom(""packet""   , char[
-    0123456789 ] packetx
-    , } // `tick` ""quote"" 'q'")).
-Eval vm_compute in ("<<<M4538>>>" ++ check (runes_of_ascii "packet
 
-A
-{ match	k as
-n	{
-[
+    chars
 
-1 ,	22
-	,
-""c c""
-
-    ,
-4 ,  5
-, ""f"" , 7
-	,
-	8 ] 
-: B , 2 :	C
-} 
-,
-
-    }
+{ @rightPad  ( '0')	Foo
+	,	}
 ")).
-Eval vm_compute in ("<<<M1420>>>" ++ check (runes_of_ascii "
-packet
-    falsey { Header MetaData""packet""  ) , char[
-    0123456789 ] packetx
-    , } // `tick` ""quote"" 'q'")).
-Eval vm_compute in ("<<<M406>>>" ++ check (runes_of_ascii "options	{ roots = ""CRC32""zchar
-= string; f32a
-=string ; pack
-    =
-""x y"" }options {
-    // @lengthOf(
-    }")).
-Eval vm_compute in ("<<<M3739>>>" ++ check (runes_of_ascii "root packet charz {
-    // " ++ [128512]%N ++ runes_of_ascii " emoji
-    repeat char[65535] options1,
-}
-
-options {
-    As = ""\n""
-}// a // b")).
-Eval vm_compute in ("<<<M487>>>" ++ check (runes_of_ascii "
-options {
-    A
-= 42 /// triple
-;
-    body =
-false; options1 = 0123456789 ; As
-= char[
-    7
-] ; }")).
-Eval vm_compute in ("<<<M876>>>" ++ check (runes_of_ascii "packet repeatCount{ }
-root packet uint8x {
-    @rightPad ( '\x00' )
-options1//x
-As , // a // b
+Eval vm_compute in ("<<<M24>>>" ++ check (runes_of_ascii "root packet
+    metadata// " ++ [128512]%N ++ runes_of_ascii " emoji
+{ } packet // c
+u
+{@leftPad (
+) repeat char[  4294967296 ] A
+`a\`  ,
 }
 ")).
-Eval vm_compute in ("<<<M3834>>>" ++ check (runes_of_ascii "packet B {
-    u8 a,
-    string s,
-}
-
-root packet P {
-    u16 L @lengthOf(B),
-    B,
-    u8 t,
-}")).
-Eval vm_compute in ("<<<M1396>>>" ++ check (runes_of_ascii "root packet SimpleMessage {
-    uint16 MsgType `" ++ [28040; 24687; 31867; 22411]%N ++ runes_of_ascii "`,
-    string JsonBody `Json" ++ [23383; 31526; 20018; 28040; 24687; 20307]%N ++ runes_of_ascii "`,
-}")).
-Eval vm_compute in ("<<<M3184>>>" ++ check (runes_of_ascii "// top
+Eval vm_compute in ("<<<M3186>>>" ++ check (runes_of_ascii "// top
 root // c0
-packet // c1
-u128 // c2
-{ // c3
-chars // c4
-`it's` // c5
-, // c6
-} // c7
+packet
+    // c1
+u128 // c2a
+  // c2b
+{
+    // c3
+chars
+    // c4
+`it's` , }
+    // c7
 ")).
-Eval vm_compute in ("<<<M2958>>>" ++ check (runes_of_ascii "packet A {
+Eval vm_compute in ("<<<M2997>>>" ++ check (runes_of_ascii "packet A {
   match k as n {
-    [1, 22, ""c c"", 4, 5, ""f"", 7, 8, ""i""] : B
+    [1, 22, ""c c"", 4, 5, ""f"", 7, 8, ""i"", 10, 11, ""l""] : B
     2 : C
   },
 }")).
-Eval vm_compute in ("<<<M3298>>>" ++ check (runes_of_ascii "MetaData float { float64 charz `
-` , } root packet chars { @rightPad ( '0'
-// c
-) Foo , }")).
-Eval vm_compute in ("<<<M3509>>>" ++ check (runes_of_ascii "packet chars { } packet MetaDataX { @tag( 42 ) i16 string_ , // c
-repeat x `say ""hi""` , }")).
-Eval vm_compute in ("<<<M2963>>>" ++ check (runes_of_ascii "packet A {
-  match k as n {
-    [1, 22, 007, 4, 5, 66, 7, 8, 9, 10] : B
-    2 : C
-  },
-}")).
-Eval vm_compute in ("<<<M4283>>>" ++ check (runes_of_ascii "
+Eval vm_compute in ("<<<M3732>>>" ++ check (runes_of_ascii "MetaData float {
+    float64 charz `
+    `,
+}
 
-  MetaData  Foo
-    { char[
-	4294967296 ]
-	BodyLength 
-    //
-	`tab	here`
+root packet chars {
+    @rightPad('0')
+    Foo,
+}// c")).
+Eval vm_compute in ("<<<M2232>>>" ++ check (runes_of_ascii "options
+{ } options { BodyLength BodyLength= u16 Header= f64 ; u128 =
+    true
+    ; } // a // b")).
+Eval vm_compute in ("<<<M317>>>" ++ check (runes_of_ascii "packet
+crc { @lengthOf( falsey )Packet /// triple
+`crlf
+line`
+    // trailing space 
     ,
 }
-
 ")).
-Eval vm_compute in ("<<<M3216>>>" ++ check (runes_of_ascii "packet metadata
-// c
-{ Logon { A `" ++ [28040; 24687; 31867; 22411]%N ++ runes_of_ascii "` , tag o , } , zchar len `// not a comment` , }")).
-Eval vm_compute in ("<<<M3465>>>" ++ check (runes_of_ascii "packet o { repeat Logon uint8x , } options { asx = zchar[ 3 ] stringy = '\x00' } // c
+Eval vm_compute in ("<<<M4355>>>" ++ check (runes_of_ascii "packet A {
+    match k as n {
+        [""a"", ""bb"", 007, ""d"", ""e""] : B,
+        2 : C,
+    },
+}")).
+Eval vm_compute in ("<<<M1063>>>" ++ check (runes_of_ascii "root packet
+    calculatedFrom { uint8
+pack  @lengthOf(
+crc )//
+`// not a comment`
+    ,}
 ")).
-Eval vm_compute in ("<<<M3436>>>" ++ check (runes_of_ascii "packet o { repeat
+Eval vm_compute in ("<<<M3272>>>" ++ check (runes_of_ascii "MetaData float
 // c
-Logon uint8x , } options { asx = zchar[ 3 ] stringy = '\x00' }")).
-Eval vm_compute in ("<<<M7>>>" ++ check (runes_of_ascii "packet pack {
-repeat As {
-char[ 65535 // trailing space 
-] crc `crlf
-line` , },
-}
-")).
-Eval vm_compute in ("<<<M4285>>>" ++ check (runes_of_ascii "  packet 
-A	{match
-k as
-    n{ [ 1 
-,
-22,""c c""]	:
-    B
-
-    2 :
-
-C
-
-    }, }")).
-Eval vm_compute in ("<<<M3413>>>" ++ check (runes_of_ascii "MetaData body { i64 pack `it's` , } packet stringy
+{ float64 charz `
+` , } root packet chars { @rightPad ( '0' ) Foo , }")).
+Eval vm_compute in ("<<<M3304>>>" ++ check (runes_of_ascii "MetaData float { float64 charz `
+` , } root packet chars { @rightPad ( '0' ) Foo ,
 // c
-{ int16 calculatedFrom , }")).
+}")).
+Eval vm_compute in ("<<<M3515>>>" ++ check (runes_of_ascii "packet chars { } packet MetaDataX { @tag( 42 ) i16 string_ , repeat x `say ""hi""` // c
+, }")).
+Eval vm_compute in ("<<<M1264>>>" ++ check (runes_of_ascii "
+MetaData i64_
+{ A crc`crlf
+line`, } options
+// " ++ [27880; 37322]%N ++ runes_of_ascii "
+// @lengthOf(
+{ int =
+    i8
+    }")).
+Eval vm_compute in ("<<<M1270>>>" ++ check (runes_of_ascii "MetaData
+T { uint16
+roots ,As lengthOf , As
+trueish
+    , char[]//
+Packet ,
+    } 	 ")).
+Eval vm_compute in ("<<<M3223>>>" ++ check (runes_of_ascii "packet metadata { Logon { A // c
+`" ++ [28040; 24687; 31867; 22411]%N ++ runes_of_ascii "` , tag o , } , zchar len `// not a comment` , }")).
+Eval vm_compute in ("<<<M2212>>>" ++ check (runes_of_ascii "options
+ } options { BodyLength= u16 Header= f64 ; u128 =
+    true
+    ; } // a // b")).
+Eval vm_compute in ("<<<M3446>>>" ++ check (runes_of_ascii "packet o { repeat Logon uint8x , } options
+// c
+{ asx = zchar[ 3 ] stringy = '\x00' }")).
+Eval vm_compute in ("<<<M3957>>>" ++ check (runes_of_ascii "options {
+    rootA = i64
+    i64_ = true
+    matchKey = '\x00'
+    charz = false;
+}")).
+Eval vm_compute in ("<<<M2899>>>" ++ check (runes_of_ascii "packet A {
+  match k as n {
+    [""a"", ""bb"", ""c c"", ""d"", ""e""] : B,
+    2 : C
+  },
+}")).
+Eval vm_compute in ("<<<M3421>>>" ++ check (runes_of_ascii "MetaData body { i64 pack `it's` , } packet stringy { int16 calculatedFrom ,
+// c
+}")).
 Eval vm_compute in ("<<<M2915>>>" ++ check (runes_of_ascii "packet A {
   match k as n {
     [1, ""bb"", 007, ""d"", 5, ""f""] : B
     2 : C
   },
 }")).
-Eval vm_compute in ("<<<M1451>>>" ++ check (runes_of_ascii "
-packet
-    falsey { Header@calculatedFrom(""packet""  ) , char[
-    0123456789")).
-Eval vm_compute in ("<<<M3533>>>" ++ check (runes_of_ascii "packet Inner {
-    u8 a,
-}
-root packet P {
-    Inner ref_obj,
-    u8 x,
-}
-")).
-Eval vm_compute in ("<<<M2892>>>" ++ check (runes_of_ascii "packet A {
+Eval vm_compute in ("<<<M3736>>>" ++ check (runes_of_ascii "
+packet  // " ++ [27880; 37322]%N ++ runes_of_ascii "
+
+  pack
+	{
+
+    //	t
+  repeat
+
+    zchar As,
+
+i16 
+roots
+
+,}")).
+Eval vm_compute in ("<<<M2905>>>" ++ check (runes_of_ascii "packet A {
   match k as n {
-    [1, 22, ""c c"", 4] : B,
+    [1, 22, ""c c"", 4, 5] : B,
     2 : C
   },
 }")).
-Eval vm_compute in ("<<<M1511>>>" ++ check (runes_of_ascii "packet
-//	t
-// trailing space 
-_x {
-// packet A { u8 x, }
-// c
-char[")).
-Eval vm_compute in ("<<<M3574>>>" ++ check (runes_of_ascii "root packet P {
-    u8 s_u8,
-    repeat u8 r_u8,
-    u16 b_len,
+Eval vm_compute in ("<<<M4321>>>" ++ check (runes_of_ascii "
+options
+
+{ _x
+
+    =
+	0
+
+;
+    As
+
+=zchar[  4294967296	]
+    ;}  //x")).
+Eval vm_compute in ("<<<M2884>>>" ++ check (runes_of_ascii "packet A {
+  match k as n {
+    [1, 22, 007, 4] : B,
+    2 : C
+  },
+}")).
+Eval vm_compute in ("<<<M2935>>>" ++ check (runes_of_ascii "packet A { Inner { match k as n { [1,22,007,4,5,66,7] : B, }, }, }")).
+Eval vm_compute in ("<<<M922>>>" ++ check (runes_of_ascii "
+packet _x  {repeat int8
+    trueish
+,// packet A { u8 x, }
+}
+
+")).
+Eval vm_compute in ("<<<M770>>>" ++ check (runes_of_ascii "MetaData x
+    /// triple
+    {
+int32 // " ++ [27880; 37322]%N ++ runes_of_ascii "
+a1`say ""hi""`	, }
+")).
+Eval vm_compute in ("<<<M3571>>>" ++ check (runes_of_ascii "root packet P {
+    repeat string ss,
+    repeat u16 ns,
 }
 ")).
-Eval vm_compute in ("<<<M1177>>>" ++ check (runes_of_ascii "packet // @lengthOf(
-o{ }options
-{Logon /// triple
-=
-    00 }
+Eval vm_compute in ("<<<M3380>>>" ++ check (runes_of_ascii "packet x { @rightPad ( ) repeat roots
+// c
+Logon `doc` , }")).
+Eval vm_compute in ("<<<M1047>>>" ++ check (runes_of_ascii "options
+{ stringy =  7;crc = ""x y"";}
+MetaData f32a{ }
 ")).
-Eval vm_compute in ("<<<M2797>>>" ++ check (runes_of_ascii "char[ '\x00' uint16 @lengthOf( i16 zchar[ MetaData u32 repeat")).
-Eval vm_compute in ("<<<M2414>>>" ++ check (runes_of_ascii "// c
-packet x { @lengthOf( metadata ) repeat lengthOf
-,a1")).
-Eval vm_compute in ("<<<M4147>>>" ++ check (runes_of_ascii "root packet f32a {
-    @tag(42)
-    char Header `
-    `,
-}")).
-Eval vm_compute in ("<<<M410>>>" ++ check (runes_of_ascii "packet crc { @rightPad ('0'
-) //x
-char[] asx `doc`	,}
+Eval vm_compute in ("<<<M4471>>>" ++ check (runes_of_ascii "
+
+  packet
+
+A
+{
+	u8 x  , 
+    // c
+    u8  y  ,
+	}
+
 ")).
-Eval vm_compute in ("<<<M45>>>" ++ check (runes_of_ascii "
-MetaData int	{ string f32a//	t
-`two words`
-, } //")).
 Eval vm_compute in ("<<<M1384>>>" ++ check (runes_of_ascii "options {Foo// trailing space 
 = // c
 ""abc"" ; }
 ")).
-Eval vm_compute in ("<<<M4131>>>" ++ check (runes_of_ascii "options  //
-  { u8x
+Eval vm_compute in ("<<<M3926>>>" ++ check (runes_of_ascii "  MetaData 
+uint8x  // trailing space 
 
-    =
-	zchar[ 
-0
-
-] }
+  {}
 
 ")).
-Eval vm_compute in ("<<<M3878>>>" ++ check (runes_of_ascii "options {
-    zchar = int32;
-    T = false
+Eval vm_compute in ("<<<M168>>>" ++ check (runes_of_ascii "root packet leftPad
+    { f32a	tag ,
+    }
+")).
+Eval vm_compute in ("<<<M2696>>>" ++ check (runes_of_ascii "; f32 , } true repeat u16 string lengthOf")).
+Eval vm_compute in ("<<<M3202>>>" ++ check (runes_of_ascii "root packet u128 { chars `it's` ,
+// c
 }")).
-Eval vm_compute in ("<<<M31>>>" ++ check (runes_of_ascii "root
-packet uint8x {}root packet  Pad
-{}")).
-Eval vm_compute in ("<<<M3197>>>" ++ check (runes_of_ascii "root packet u128 { chars // c
-`it's` , }")).
-Eval vm_compute in ("<<<M3055>>>" ++ check (runes_of_ascii "options {
-    a = ""\
-"";
-    b = ""\
-""
+Eval vm_compute in ("<<<M4297>>>" ++ check (runes_of_ascii "packet	int{
+
+    }	packet 
+roots{
+	}")).
+Eval vm_compute in ("<<<M3856>>>" ++ check (runes_of_ascii "
+packet
+
+A 
+{
+	u8
+x 
+`tab
+	x` ,  }
+")).
+Eval vm_compute in ("<<<M2585>>>" ++ check (runes_of_ascii "packet A { string x @lengthOf(y) }")).
+Eval vm_compute in ("<<<M21>>>" ++ check (runes_of_ascii "//	t
+packet Packet{ u64 tag
+,}
+")).
+Eval vm_compute in ("<<<M2735>>>" ++ check (runes_of_ascii ") char[] ] @leftPad ; f64 uint8")).
+Eval vm_compute in ("<<<M3117>>>" ++ check (runes_of_ascii "packet A {
+ u8 x `d" ++ [11]%N ++ runes_of_ascii "`, // c" ++ [11]%N ++ runes_of_ascii "
 }")).
-Eval vm_compute in ("<<<M3152>>>" ++ check (runes_of_ascii "options { a = 1 // c b = 2; // d}")).
-Eval vm_compute in ("<<<M437>>>" ++ check (runes_of_ascii "packet // a // b
-int{ } // a // b")).
-Eval vm_compute in ("<<<M2759>>>" ++ check ([65533; 65533; 65533; 65533]%N ++ runes_of_ascii "Q" ++ [2; 65533; 65533; 29; 65533]%N ++ runes_of_ascii "%" ++ [30; 65533]%N ++ runes_of_ascii "f" ++ [65533; 65533]%N ++ runes_of_ascii ";lJ" ++ [65533]%N ++ runes_of_ascii "p" ++ [65533]%N ++ runes_of_ascii "," ++ [65533; 65533; 65533; 65533; 65533]%N ++ runes_of_ascii "[k-" ++ [65533; 65533]%N)).
-Eval vm_compute in ("<<<M550>>>" ++ check (runes_of_ascii "
-packet int {} packet roots
-{}")).
-Eval vm_compute in ("<<<M3087>>>" ++ check (runes_of_ascii "packet A {
- u8 x `d" ++ [8192]%N ++ runes_of_ascii "`, // c" ++ [8192]%N ++ runes_of_ascii "
+Eval vm_compute in ("<<<M2822>>>" ++ check (runes_of_ascii "sa;6G`'h:_2TsaQbH%GtGhb$f\i""")).
+Eval vm_compute in ("<<<M792>>>" ++ check (runes_of_ascii "options { pack= int32 ;}
+")).
+Eval vm_compute in ("<<<M3254>>>" ++ check (runes_of_ascii "root // c
+packet pack { }")).
+Eval vm_compute in ("<<<M4606>>>" ++ check (runes_of_ascii "// c" ++ [11]%N ++ runes_of_ascii "
+    	packet A {
+} ")).
+Eval vm_compute in ("<<<M730>>>" ++ check (runes_of_ascii "root	packet f32a { }
+")).
+Eval vm_compute in ("<<<M3478>>>" ++ check (runes_of_ascii "MetaData o { } // c
+")).
+Eval vm_compute in ("<<<M3146>>>" ++ check (runes_of_ascii "// c x
+packet A {
 }")).
-Eval vm_compute in ("<<<M2586>>>" ++ check (runes_of_ascii "packet A { x @lengthOf(y), }")).
-Eval vm_compute in ("<<<M93>>>" ++ check (runes_of_ascii "packet repeatCount{	} // c")).
-Eval vm_compute in ("<<<M3252>>>" ++ check (runes_of_ascii "// c
-root packet pack { }")).
-Eval vm_compute in ("<<<M1178>>>" ++ check (runes_of_ascii "root packet //
-i64_ { }")).
-Eval vm_compute in ("<<<M2772>>>" ++ check (runes_of_ascii "5rg/0~r2x>%:GDBld$X~A")).
-Eval vm_compute in ("<<<M385>>>" ++ check (runes_of_ascii "packet lengthOf
-{ }")).
-Eval vm_compute in ("<<<M3847>>>" ++ check (runes_of_ascii "MetaData uint8x {
-}")).
-Eval vm_compute in ("<<<M3095>>>" ++ check (runes_of_ascii "packet A {
+Eval vm_compute in ("<<<M3090>>>" ++ check (runes_of_ascii "packet A {
 }
-// c" ++ [8232]%N)).
-Eval vm_compute in ("<<<M2572>>>" ++ check (runes_of_ascii "packet A { x y, }")).
+// c" ++ [8202]%N)).
+Eval vm_compute in ("<<<M2569>>>" ++ check (runes_of_ascii "packet A { u8 x }")).
 Eval vm_compute in ("<<<M774>>>" ++ check (runes_of_ascii "options
     { }
 ")).
 Eval vm_compute in ("<<<M2634>>>" ++ check (runes_of_ascii "packet A { } 1")).
-Eval vm_compute in ("<<<M376>>>" ++ check (runes_of_ascii "
-options{}")).
-Eval vm_compute in ("<<<M2753>>>" ++ check (runes_of_ascii ", char[ }")).
-Eval vm_compute in ("<<<M2464>>>" ++ check (runes_of_ascii "repeats")).
-Eval vm_compute in ("<<<M3870>>>" ++ check (runes_of_ascii "
-//
+Eval vm_compute in ("<<<M308>>>" ++ check (runes_of_ascii "options{
+}")).
+Eval vm_compute in ("<<<M2835>>>" ++ check (runes_of_ascii "char[ i64")).
+Eval vm_compute in ("<<<M86>>>" ++ check (runes_of_ascii "
+// c
 ")).
-Eval vm_compute in ("<<<M3099>>>" ++ check (runes_of_ascii "// c" ++ [8233]%N)).
-Eval vm_compute in ("<<<M2546>>>" ++ check (runes_of_ascii "a
-b")).
-Eval vm_compute in ("<<<M2545>>>" ++ check (runes_of_ascii "ab")).
-Eval vm_compute in ("<<<M2556>>>" ++ check ([233]%N ++ runes_of_ascii "a")).
+Eval vm_compute in ("<<<M2436>>>" ++ check (runes_of_ascii "zchar")).
+Eval vm_compute in ("<<<M3800>>>" ++ check (runes_of_ascii "//
+ 
+")).
+Eval vm_compute in ("<<<M333>>>" ++ check (runes_of_ascii "
+
+")).
+Eval vm_compute in ("<<<M2813>>>" ++ check (runes_of_ascii "t^h")).
+Eval vm_compute in ("<<<M2497>>>" ++ check (runes_of_ascii "/")).
